@@ -476,15 +476,15 @@ Qed.
 Lemma Inv_request_sent : forall (X : N -> Prop) cfg s k o t (mk : N -> wmsg) (keep : bool),
   Inv X s ->
   Inv X (fst (let '(s1, id, f) := new_request s k o t in
-              let '(o1, ok) := send cfg s1 (mk id) in
+              let '(o1, ok) := send_req cfg s1 (mk id) in
               if ok then (s1, o1 ++ [ApiReturned (Some f)])
-              else if keep then (s1, o1 ++ [ApiRaised XTransportLost])
-              else (drop_request s1 k id f, o1 ++ [ApiRaised XTransportLost]))).
+              else if keep then (s1, o1 ++ [ApiRaised (send_exn s1)])
+              else (drop_request s1 k id f, o1 ++ [ApiRaised (send_exn s1)]))).
 Proof.
   intros X cfg s k o t mk keep H.
   pose proof (Inv_new_request X s k o t H) as H1. pose proof (new_request_find X s k o t H) as Hf.
   destruct (new_request s k o t) as [[s1 id] f]. simpl in H1.
-  destruct (send cfg s1 (mk id)) as [o1 ok]. destruct ok; [assumption|]. destruct keep; [assumption|].
+  destruct (send_req cfg s1 (mk id)) as [o1 ok]. destruct ok; [assumption|]. destruct keep; [assumption|].
   simpl. exact (Inv_drop_request X s1 k id _ H1 Hf).
 Qed.
 
@@ -492,7 +492,7 @@ Ltac keep_request X H k o t :=
   let H1 := fresh "H1" in
   pose proof (Inv_new_request X _ k o t H) as H1;
   destruct (new_request _ k o t) as [[?s1 ?id] ?f]; simpl in H1;
-  destruct (send _ _ _) as [?o1 ?ok]; exact H1.
+  destruct (send_req _ _ _) as [?o1 ?ok]; exact H1.
 
 Lemma Inv_api_step : forall (X : N -> Prop) cfg s o, Inv X s -> Inv X (fst (api_step cfg s o)).
 Proof.
@@ -505,7 +505,7 @@ Proof.
     + exact (Inv_request_sent X cfg s KPublish None uri
                (fun id => MPublish id uri a kw match o with Some p => po_ack p | None => None end
                                    match o with Some p => po_exclude_me p | None => None end) false H).
-    + unfold new_id_only. destruct (send cfg _ _). simpl. eapply Inv_ext; [|exact H]. reflexivity.
+    + unfold new_id_only. destruct (send_req cfg _ _). simpl. eapply Inv_ext; [|exact H]. reflexivity.
   - destruct (negb (transport s)); [assumption|]. keep_request X H KSubscribe (@None call_opts) uri.
   - destruct (negb (transport s)); [assumption|]. keep_request X H KRegister (@None call_opts) uri.
   - destruct (reg_id_of s h) as [regid|]; [|assumption].
@@ -518,14 +518,14 @@ Lemma api_step_done : forall cfg s o, done (fst (api_step cfg s o)) = done s.
 Proof.
   intros cfg s o. destruct o; try reflexivity; unfold api_step.
   - destruct (negb (transport s)); [reflexivity|]. unfold new_request. cbv zeta beta iota.
-    destruct (send cfg _ _) as [o1 ok]. destruct ok; reflexivity.
+    destruct (send_req cfg _ _) as [o1 ok]. destruct ok; reflexivity.
   - destruct (negb (transport s)); [reflexivity|]. destruct (po_wants_ack o); unfold new_request, new_id_only; cbv zeta beta iota;
-      destruct (send cfg _ _) as [o1 ok]; destruct ok; reflexivity.
-  - destruct (negb (transport s)); [reflexivity|]. unfold new_request. cbv zeta beta iota. destruct (send cfg _ _). reflexivity.
-  - destruct (negb (transport s)); [reflexivity|]. unfold new_request. cbv zeta beta iota. destruct (send cfg _ _). reflexivity.
+      destruct (send_req cfg _ _) as [o1 ok]; destruct ok; reflexivity.
+  - destruct (negb (transport s)); [reflexivity|]. unfold new_request. cbv zeta beta iota. destruct (send_req cfg _ _). reflexivity.
+  - destruct (negb (transport s)); [reflexivity|]. unfold new_request. cbv zeta beta iota. destruct (send_req cfg _ _). reflexivity.
   - destruct (reg_id_of s h); [|reflexivity]. destruct (assoc n (regs s)); [|reflexivity].
     destruct (negb (n0 =? h)); [reflexivity|]. destruct (negb (transport s)); [reflexivity|].
-    unfold new_request. cbv zeta beta iota. destruct (send cfg _ _). reflexivity.
+    unfold new_request. cbv zeta beta iota. destruct (send_req cfg _ _). reflexivity.
 Qed.
 
 Lemma Inv_react : forall (X : N -> Prop) cfg s f, Inv X s -> Inv X (fst (react cfg s f)).
@@ -815,39 +815,9 @@ Proof.
   destruct (sid s); [now apply Inv_established | now apply Inv_unjoined].
 Qed.
 
-Theorem step_Inv : forall fl cfg s o, Inv none s -> Inv none (fst (step fl cfg s o)).
+Lemma Inv_unsub_step : forall fl cfg s h, Inv none s -> Inv none (fst (unsub_step fl cfg s h)).
 Proof.
-  intros fl cfg s o H. destruct o; try (apply Inv_router; assumption); unfold step; cbv beta iota.
-  - (* OOpen *)
-    destruct (opened s); [assumption|]. apply Inv_defer. eapply Inv_ext; [|exact H]. reflexivity.
-  - (* OLost *)
-    destruct (negb (transport s)); [assumption|].
-    set (s0 := set_conn s (opened s) false false).
-    assert (H0 : Inv none s0) by (eapply Inv_ext; [|exact H]; reflexivity).
-    assert (H3 : Inv none (fst (if sid_truthy s0
-                                then let '(s1, o1, raised) := do_onLeave fl cfg s0 RsTransportLost in
-                                     let '(s2, o2) := defer_leaf fl cfg s1 (LLeaveK raised) in (set_sid s2 None, o1 ++ o2)
-                                else (s0, [])))).
-    { destruct (sid_truthy s0); [|assumption].
-      pose proof (Inv_leave_then fl cfg s0 RsTransportLost H0) as H1.
-      destruct (do_onLeave fl cfg s0 RsTransportLost) as [[s1 o1] raised].
-      destruct (defer_leaf fl cfg s1 (LLeaveK raised)) as [s2 o2]. simpl in *.
-      eapply Inv_ext; [|exact H1]. reflexivity. }
-    destruct (if sid_truthy s0
-              then let '(s1, o1, raised) := do_onLeave fl cfg s0 RsTransportLost in
-                   let '(s2, o2) := defer_leaf fl cfg s1 (LLeaveK raised) in (set_sid s2 None, o1 ++ o2)
-              else (s0, [])) as [s3 o3]. simpl in H3.
-    pose proof (Inv_do_onDisconnect fl cfg s3 H3) as H4.
-    destruct (do_onDisconnect fl cfg s3) as [[s4 o4] raised]. simpl in H4.
-    pose proof (Inv_defer_leaf fl cfg none s4 (LDiscK raised) H4) as H5.
-    destruct (defer_leaf fl cfg s4 (LDiscK raised)) as [s5 o5]. exact H5.
-  - (* OTurn *)
-    destruct fl; [assumption|]. apply Inv_run_queue. eapply Inv_ext; [|exact H]. reflexivity.
-  - (* ACall *) now apply Inv_api_step.
-  - (* APublish *) now apply Inv_api_step.
-  - (* ASubscribe *) now apply Inv_api_step.
-  - (* ARegister *) now apply Inv_api_step.
-  - (* AUnsubscribe *)
+  intros fl cfg s h H. unfold unsub_step.
     destruct (sub_id_of s h) as [subid|]; [|assumption].
     destruct (negb (memN h match assoc subid (subs s) with Some l => l | None => [] end)); [assumption|].
     destruct (negb (transport s)); [assumption|].
@@ -875,6 +845,44 @@ Proof.
         - auto.
         - intros g []. }
       destruct (complete fl cfg s1 f (ROk (VCount (N.of_nat (length (x :: rest')))))) as [s2 o2]. exact H2.
+Qed.
+
+Lemma Inv_failnext : forall X s v, Inv X s -> Inv X (set_failnext s v).
+Proof. intros. eapply Inv_ext; [|eassumption]. reflexivity. Qed.
+
+Theorem step_Inv : forall fl cfg s o, Inv none s -> Inv none (fst (step fl cfg s o)).
+Proof.
+  intros fl cfg s o H. destruct o; try (apply Inv_router; assumption); unfold step; cbv beta iota.
+  - (* OOpen *)
+    destruct (transport s); [assumption|]. apply Inv_defer. eapply Inv_ext; [|exact H]. reflexivity.
+  - (* OLost *)
+    destruct (negb (transport s)); [assumption|].
+    set (s0 := set_conn s (opened s) false false).
+    assert (H0 : Inv none s0) by (eapply Inv_ext; [|exact H]; reflexivity).
+    assert (H3 : Inv none (fst (if sid_truthy s0
+                                then let '(s1, o1, raised) := do_onLeave fl cfg s0 RsTransportLost in
+                                     let '(s2, o2) := defer_leaf fl cfg s1 (LLeaveK raised) in (set_sid s2 None, o1 ++ o2)
+                                else (s0, [])))).
+    { destruct (sid_truthy s0); [|assumption].
+      pose proof (Inv_leave_then fl cfg s0 RsTransportLost H0) as H1.
+      destruct (do_onLeave fl cfg s0 RsTransportLost) as [[s1 o1] raised].
+      destruct (defer_leaf fl cfg s1 (LLeaveK raised)) as [s2 o2]. simpl in *.
+      eapply Inv_ext; [|exact H1]. reflexivity. }
+    destruct (if sid_truthy s0
+              then let '(s1, o1, raised) := do_onLeave fl cfg s0 RsTransportLost in
+                   let '(s2, o2) := defer_leaf fl cfg s1 (LLeaveK raised) in (set_sid s2 None, o1 ++ o2)
+              else (s0, [])) as [s3 o3]. simpl in H3.
+    pose proof (Inv_do_onDisconnect fl cfg s3 H3) as H4.
+    destruct (do_onDisconnect fl cfg s3) as [[s4 o4] raised]. simpl in H4.
+    pose proof (Inv_defer_leaf fl cfg none s4 (LDiscK raised) H4) as H5.
+    destruct (defer_leaf fl cfg s4 (LDiscK raised)) as [s5 o5]. exact H5.
+  - (* OTurn *)
+    destruct fl; [assumption|]. apply Inv_run_queue. eapply Inv_ext; [|exact H]. reflexivity.
+  - (* ACall *) now apply Inv_api_step.
+  - (* APublish *) now apply Inv_api_step.
+  - (* ASubscribe *) now apply Inv_api_step.
+  - (* ARegister *) now apply Inv_api_step.
+  - (* AUnsubscribe *) now apply Inv_unsub_step.
   - (* AUnregister *) now apply Inv_api_step.
   - (* ACancel *)
     destruct (is_done s f) eqn:Ed; [assumption|].
@@ -895,6 +903,14 @@ Proof.
     simpl. eapply Inv_ext; [|exact H]. reflexivity.
   - (* ADisconnect *)
     destruct (transport s); [|assumption]. simpl. eapply Inv_ext; [|exact H]. reflexivity.
+  - (* AFail *)
+    destruct (is_fail_op o); [|assumption].
+    assert (H0 : Inv none (set_failnext s (Some e))) by now apply Inv_failnext.
+    assert (H1 : Inv none (fst (match o with AUnsubscribe h => unsub_step fl cfg (set_failnext s (Some e)) h
+                                 | _ => api_step cfg (set_failnext s (Some e)) o end))).
+    { destruct o; try (now apply Inv_api_step). now apply Inv_unsub_step. }
+    destruct (match o with AUnsubscribe h => unsub_step fl cfg (set_failnext s (Some e)) h
+              | _ => api_step cfg (set_failnext s (Some e)) o end) as [s1 o1]. simpl in *. now apply Inv_failnext.
   - (* AReact *)
     destruct (is_react_op o && negb (is_done s f) && isNoneB (assoc f (reacts s))); [|assumption].
     simpl. eapply Inv_ext; [|exact H]. reflexivity.
@@ -1129,71 +1145,71 @@ Definition sends_one (fl : flavour) (cfg : ucfg) (s : sess) (o : op) (k : kind) 
 Lemma send_open : forall cfg s m, topen s = true -> send cfg s m = ([Sent m], true).
 Proof. intros. unfold send. rewrite H. reflexivity. Qed.
 
-Theorem call_one_message : forall fl cfg s uri a kw o, transport s = true -> topen s = true ->
+Theorem call_one_message : forall fl cfg s uri a kw o, transport s = true -> topen s = true -> failnext s = None ->
   sends_one fl cfg s (ACall uri a kw o) KCall o uri
     (fun id => MCall id uri a kw (match o with Some c => co_timeout c | None => None end)
                      (match o with Some c => co_progress c | None => false end)).
 Proof.
-  intros. unfold sends_one, step, api_step. rewrite H. simpl. unfold send. simpl. rewrite H0. simpl.
+  intros until 2. intro Hfn. intros. unfold sends_one, step, api_step. rewrite H. simpl. unfold send_req, send. simpl. rewrite Hfn, H0. simpl.
   eexists. split; [reflexivity|]. simpl. repeat split; reflexivity.
 Qed.
 
-Theorem publish_ack_one_message : forall fl cfg s uri a kw o, transport s = true -> topen s = true ->
+Theorem publish_ack_one_message : forall fl cfg s uri a kw o, transport s = true -> topen s = true -> failnext s = None ->
   po_wants_ack o = true ->
   sends_one fl cfg s (APublish uri a kw o) KPublish None uri
     (fun id => MPublish id uri a kw (match o with Some p => po_ack p | None => None end)
                         (match o with Some p => po_exclude_me p | None => None end)).
 Proof.
-  intros. unfold sends_one, step, api_step. rewrite H. simpl. rewrite H1. unfold send. simpl. rewrite H0. simpl.
+  intros until 2. intro Hfn. intros. unfold sends_one, step, api_step. rewrite H. simpl. rewrite H1. unfold send_req, send. simpl. rewrite Hfn, H0. simpl.
   eexists. split; [reflexivity|]. simpl. repeat split; reflexivity.
 Qed.
 
 (* publish without acknowledge: one PUBLISH with a fresh id, no future, no record *)
-Theorem publish_noack_one_message : forall fl cfg s uri a kw o, transport s = true -> topen s = true ->
+Theorem publish_noack_one_message : forall fl cfg s uri a kw o, transport s = true -> topen s = true -> failnext s = None ->
   po_wants_ack o = false ->
   exists s', step fl cfg s (APublish uri a kw o) =
       (s', [Sent (MPublish (idgen_next (next_id s)) uri a kw (match o with Some p => po_ack p | None => None end)
                            (match o with Some p => po_exclude_me p | None => None end)); ApiReturned None])
     /\ pend s' = pend s /\ next_id s' = idgen_next (next_id s) /\ done s' = done s /\ issued s' = issued s.
 Proof.
-  intros. unfold step, api_step. rewrite H. simpl. rewrite H1. unfold send. simpl. rewrite H0. simpl.
+  intros until 2. intro Hfn. intros. unfold step, api_step. rewrite H. simpl. rewrite H1. unfold send_req, send. simpl. rewrite Hfn, H0. simpl.
   eexists. split; [reflexivity|]. simpl. repeat split; reflexivity.
 Qed.
 
-Theorem subscribe_one_message : forall fl cfg s uri o, transport s = true -> topen s = true ->
+Theorem subscribe_one_message : forall fl cfg s uri o, transport s = true -> topen s = true -> failnext s = None ->
   sends_one fl cfg s (ASubscribe uri o) KSubscribe None uri
     (fun id => MSubscribe id uri (match o with Some c => opt_default (so_match c) | None => 0 end)
                           (match o with Some c => so_get_retained c | None => None end)).
 Proof.
-  intros. unfold sends_one, step, api_step. rewrite H. simpl. unfold send. simpl. rewrite H0. simpl.
+  intros until 2. intro Hfn. intros. unfold sends_one, step, api_step. rewrite H. simpl. unfold send_req, send. simpl. rewrite Hfn, H0. simpl.
   eexists. split; [reflexivity|]. simpl. repeat split; reflexivity.
 Qed.
 
-Theorem register_one_message : forall fl cfg s uri o, transport s = true -> topen s = true ->
+Theorem register_one_message : forall fl cfg s uri o, transport s = true -> topen s = true -> failnext s = None ->
   sends_one fl cfg s (ARegister uri o) KRegister None uri
     (fun id => MRegister id uri (match o with Some c => opt_default (ro_match c) | None => 0 end)
                          (match o with Some c => opt_default (ro_invoke c) | None => 0 end)).
 Proof.
-  intros. unfold sends_one, step, api_step. rewrite H. simpl. unfold send. simpl. rewrite H0. simpl.
+  intros until 2. intro Hfn. intros. unfold sends_one, step, api_step. rewrite H. simpl. unfold send_req, send. simpl. rewrite Hfn, H0. simpl.
   eexists. split; [reflexivity|]. simpl. repeat split; reflexivity.
 Qed.
 
 (* unsubscribing the last handler of a subscription sends UNSUBSCRIBE for that subscription id *)
-Theorem unsubscribe_one_message : forall fl cfg s h subid, transport s = true -> topen s = true ->
+Theorem unsubscribe_one_message : forall fl cfg s h subid, transport s = true -> topen s = true -> failnext s = None ->
   sub_id_of s h = Some subid -> assoc subid (subs s) = Some [h] ->
   sends_one fl cfg s (AUnsubscribe h) KUnsubscribe None subid (fun id => MUnsubscribe id subid).
 Proof.
-  intros. unfold sends_one, step, api_step. rewrite H1, H2. simpl. rewrite N.eqb_refl. simpl. rewrite H. simpl.
-  unfold send. simpl. rewrite H0. simpl.
+  intros until 2. intro Hfn. intros. unfold sends_one, step, unsub_step. rewrite H1, H2. simpl. rewrite N.eqb_refl. simpl. rewrite H. simpl.
+  unfold send_req, send. simpl. rewrite Hfn, H0. simpl.
   eexists. split; [reflexivity|]. simpl. repeat split; reflexivity.
 Qed.
 
-Theorem unregister_one_message : forall fl cfg s h regid, transport s = true -> topen s = true ->
+Theorem unregister_one_message : forall fl cfg s h regid, transport s = true -> topen s = true -> failnext s = None ->
   reg_id_of s h = Some regid -> assoc regid (regs s) = Some h ->
   sends_one fl cfg s (AUnregister h) KUnregister None regid (fun id => MUnregister id regid).
 Proof.
-  intros. unfold sends_one, step, api_step. rewrite H1, H2. rewrite N.eqb_refl. simpl. rewrite H. simpl.
-  unfold send. simpl. rewrite H0. simpl.
+  intros until 2. intro Hfn. intros. unfold sends_one, step, api_step. rewrite H1, H2. rewrite N.eqb_refl. simpl. rewrite H. simpl.
+  unfold send_req, send. simpl. rewrite Hfn, H0. simpl.
   eexists. split; [reflexivity|]. simpl. repeat split; reflexivity.
 Qed.
 
@@ -1260,7 +1276,7 @@ Theorem api_after_lost_objects : forall fl cfg s h,
   (exists e, step fl cfg s (AUnregister h) = (s, [ApiRaised e])).
 Proof.
   intros fl cfg s h Ht. split; unfold step.
-  - destruct (sub_id_of s h); [|eexists; reflexivity].
+  - unfold unsub_step. destruct (sub_id_of s h); [|eexists; reflexivity].
     destruct (negb (memN h _)); [eexists; reflexivity|]. rewrite Ht. eexists; reflexivity.
   - unfold api_step. destruct (reg_id_of s h); [|eexists; reflexivity]. destruct (assoc n (regs s)); [|eexists; reflexivity].
     destruct (negb (n0 =? h)); [eexists; reflexivity|]. rewrite Ht. eexists; reflexivity.
@@ -1269,11 +1285,11 @@ Qed.
 (* ... and once the transport was closed (default onLeave -> disconnect) while the transport object is still
    attached, provided its send() refuses (the harness transport; rawsocket / websocket transports differ) *)
 Theorem api_after_close : forall fl cfg s uri a kw o,
-  transport s = true -> topen s = false -> t_lenient cfg = false ->
+  transport s = true -> topen s = false -> t_lenient cfg = false -> failnext s = None ->
   exists s' m, step fl cfg s (ACall uri a kw o) = (s', [SendFailed m; ApiRaised XTransportLost])
                /\ (forall r, In r (pend s') -> In r (pend s)) /\ done s' = done s.
 Proof.
-  intros fl cfg s uri a kw o Ht Ho Hw. unfold step, api_step. rewrite Ht. simpl. unfold send. simpl. rewrite Ho, Hw. simpl.
+  intros fl cfg s uri a kw o Ht Ho Hw Hfn. unfold step, api_step. rewrite Ht. simpl. unfold send_req, send, send_exn. simpl. rewrite Hfn, Ho, Hw. simpl.
   eexists. eexists. split; [reflexivity|]. simpl. split; [|reflexivity].
   intros r Hr.
   assert (Hsub : forall x l z, In z (remove_req (r_kind x) (r_id x) (put_req x l)) -> In z l).
@@ -1335,17 +1351,20 @@ Proof.
   intros cfg s m H. unfold send. destruct (topen s); [|destruct (t_lenient cfg && transport s)]; simpl; rewrite H; reflexivity.
 Qed.
 
+Lemma send_req_nr : forall cfg s m, req_id_of_msg m = None -> request_ids (fst (send_req cfg s m)) = [].
+Proof. intros cfg s m H. unfold send_req. destruct (failnext s); [simpl; rewrite H; reflexivity | now apply send_nr]. Qed.
+
 Lemma new_request_sent_ids : forall cfg s k co t (mk : N -> wmsg) (keep : bool) tail_ok tail_bad,
   (forall id, req_id_of_msg (mk id) = Some id) -> request_ids tail_ok = [] -> request_ids tail_bad = [] ->
   let r := (let '(s1, id, f) := new_request s k co t in
-            let '(o1, ok) := send cfg s1 (mk id) in
+            let '(o1, ok) := send_req cfg s1 (mk id) in
             if ok then (s1, o1 ++ tail_ok)
             else ((if keep then s1 else drop_request s1 k id f), o1 ++ tail_bad)) in
   request_ids (snd r) = [idgen_next (next_id s)] /\ next_id (fst r) = idgen_next (next_id s).
 Proof.
   intros cfg s k co t mk keep tail_ok tail_bad Hmk Hok Hbad. unfold new_request. cbv zeta beta iota.
-  unfold send. cbn [topen transport set_newreq].
-  destruct (topen s); [|destruct (t_lenient cfg && transport s)]; cbn [fst snd];
+  unfold send_req, send. cbn [topen transport set_newreq failnext].
+  destruct (failnext s); [|destruct (topen s); [|destruct (t_lenient cfg && transport s)]]; cbn [fst snd];
     rewrite ?request_ids_app, ?Hok, ?Hbad; simpl; rewrite Hmk; simpl;
     try (split; reflexivity); destruct keep; split; reflexivity.
 Qed.
@@ -1360,36 +1379,36 @@ Proof.
     destruct (new_request_sent_ids cfg s KCall o uri
              (fun id => MCall id uri a kw match o with Some c => co_timeout c | None => None end
                               match o with Some c => co_progress c | None => false end)
-             false [ApiReturned (Some (next_fut s))] [ApiRaised XTransportLost] (fun _ => eq_refl) eq_refl eq_refl) as [A B].
+             false [ApiReturned (Some (next_fut s))] [ApiRaised (send_exn s)] (fun _ => eq_refl) eq_refl eq_refl) as [A B].
     now apply NR_one.
   - destruct (negb (transport s)); [apply NR_quiet; reflexivity|]. destruct (po_wants_ack o).
     + destruct (new_request_sent_ids cfg s KPublish None uri
                (fun id => MPublish id uri a kw match o with Some p => po_ack p | None => None end
                                    match o with Some p => po_exclude_me p | None => None end)
-               false [ApiReturned (Some (next_fut s))] [ApiRaised XTransportLost] (fun _ => eq_refl) eq_refl eq_refl) as [A B].
+               false [ApiReturned (Some (next_fut s))] [ApiRaised (send_exn s)] (fun _ => eq_refl) eq_refl eq_refl) as [A B].
       now apply NR_one.
-    + unfold new_id_only, send. cbn [topen transport set_newreq].
-      destruct (topen s); [|destruct (t_lenient cfg && transport s)]; apply NR_one; reflexivity.
+    + unfold new_id_only, send_req, send. cbn [topen transport set_newreq failnext].
+      destruct (failnext s); [|destruct (topen s); [|destruct (t_lenient cfg && transport s)]]; apply NR_one; reflexivity.
   - destruct (negb (transport s)); [apply NR_quiet; reflexivity|].
     pose proof (new_request_sent_ids cfg s KSubscribe None uri
              (fun id => MSubscribe id uri match o with Some c => opt_default (so_match c) | None => 0 end
                                    match o with Some c => so_get_retained c | None => None end)
-             true [ApiReturned (Some (next_fut s))] [ApiRaised XTransportLost] (fun _ => eq_refl) eq_refl eq_refl) as HR.
-    unfold new_request in *. cbv zeta beta iota in *. destruct (send cfg _ _) as [o1 ok].
+             true [ApiReturned (Some (next_fut s))] [ApiRaised (send_exn s)] (fun _ => eq_refl) eq_refl eq_refl) as HR.
+    unfold new_request in *. cbv zeta beta iota in *. destruct (send_req cfg _ _) as [o1 ok].
     destruct ok; destruct HR as [A B]; now apply NR_one.
   - destruct (negb (transport s)); [apply NR_quiet; reflexivity|].
     pose proof (new_request_sent_ids cfg s KRegister None uri
              (fun id => MRegister id uri match o with Some c => opt_default (ro_match c) | None => 0 end
                                   match o with Some c => opt_default (ro_invoke c) | None => 0 end)
-             true [ApiReturned (Some (next_fut s))] [ApiRaised XTransportLost] (fun _ => eq_refl) eq_refl eq_refl) as HR.
-    unfold new_request in *. cbv zeta beta iota in *. destruct (send cfg _ _) as [o1 ok].
+             true [ApiReturned (Some (next_fut s))] [ApiRaised (send_exn s)] (fun _ => eq_refl) eq_refl eq_refl) as HR.
+    unfold new_request in *. cbv zeta beta iota in *. destruct (send_req cfg _ _) as [o1 ok].
     destruct ok; destruct HR as [A B]; now apply NR_one.
   - destruct (reg_id_of s h) as [regid|]; [|apply NR_quiet; reflexivity].
     destruct (assoc regid (regs s)) as [h'|]; [|apply NR_quiet; reflexivity].
     destruct (negb (h' =? h)); [apply NR_quiet; reflexivity|]. destruct (negb (transport s)); [apply NR_quiet; reflexivity|].
     pose proof (new_request_sent_ids cfg s KUnregister None regid (fun id => MUnregister id regid)
-             true [ApiReturned (Some (next_fut s))] [ApiRaised XTransportLost] (fun _ => eq_refl) eq_refl eq_refl) as HR.
-    unfold new_request in *. cbv zeta beta iota in *. destruct (send cfg _ _) as [o1 ok].
+             true [ApiReturned (Some (next_fut s))] [ApiRaised (send_exn s)] (fun _ => eq_refl) eq_refl eq_refl) as HR.
+    unfold new_request in *. cbv zeta beta iota in *. destruct (send_req cfg _ _) as [o1 ok].
     destruct ok; destruct HR as [A B]; now apply NR_one.
 Qed.
 
@@ -1574,6 +1593,24 @@ Proof.
     apply (NR_out s s1 o1 [Called CbChallenge]); [assumption | reflexivity].
 Qed.
 
+Lemma NR_unsub_step : forall fl cfg s h, NR s (fst (unsub_step fl cfg s h)) (snd (unsub_step fl cfg s h)).
+Proof.
+  intros fl cfg s h. unfold unsub_step.
+    destruct (sub_id_of s h) as [subid|]; [|apply NR_quiet; reflexivity].
+    destruct (negb (memN h _)); [apply NR_quiet; reflexivity|]. destruct (negb (transport s)); [apply NR_quiet; reflexivity|].
+    set (rest := remove1 h match assoc subid (subs s) with Some l => l | None => [] end).
+    set (s0 := set_subs s (assoc_set subid rest (subs s))).
+    destruct rest as [|x rest'].
+    + pose proof (new_request_sent_ids cfg s0 KUnsubscribe None subid (fun id => MUnsubscribe id subid)
+               true [ApiReturned (Some (next_fut s0))] [ApiRaised (send_exn s0)] (fun _ => eq_refl) eq_refl eq_refl) as HR.
+      unfold new_request in *. cbv zeta beta iota in *. destruct (send_req cfg _ _) as [o1 ok].
+      destruct ok; destruct HR as [A B]; now apply NR_one.
+    + match goal with |- context [complete fl cfg ?S ?F ?R] =>
+        pose proof (NR_complete fl cfg S F R) as Hc; destruct (complete fl cfg S F R) as [s2 o2] end.
+      simpl in *. apply (NR_out s s2 o2 [ApiReturned (Some (next_fut s0))]); [|reflexivity].
+      eapply NR_from; [|exact Hc]. reflexivity.
+Qed.
+
 (* every step: the request messages it hands to the transport carry the successive generator values *)
 Theorem step_NR : forall fl cfg s o, NR s (fst (step fl cfg s o)) (snd (step fl cfg s o)).
 Proof.
@@ -1585,7 +1622,7 @@ Proof.
                   else match sid s with None => on_message_unjoined fl cfg s o | Some _ => on_message_established fl cfg s o end))).
   { destruct (negb (transport s)); [apply NR_refl|]. destruct (sid s); [apply NR_established | apply NR_unjoined]. }
   destruct o; try exact Hrouter; clear Hrouter; try apply NR_api_step; unfold step; cbv beta iota.
-  - destruct (opened s); [apply NR_refl|]. eapply NR_from; [|apply NR_defer]. reflexivity.
+  - destruct (transport s); [apply NR_refl|]. eapply NR_from; [|apply NR_defer]. reflexivity.
   - destruct (negb (transport s)); [apply NR_refl|].
     set (s0 := set_conn s (opened s) false false).
     assert (H3 : let r := (if sid_truthy s0
@@ -1604,20 +1641,7 @@ Proof.
     pose proof (NR_defer_leaf fl cfg s4 (LDiscK raised)) as H5. destruct (defer_leaf fl cfg s4 (LDiscK raised)) as [s5 o5].
     simpl in *. eapply NR_trans; [exact H3|]. eapply NR_trans; eassumption.
   - destruct fl; [apply NR_refl|]. eapply NR_from; [|apply NR_run_queue]. reflexivity.
-  - (* AUnsubscribe *)
-    destruct (sub_id_of s h) as [subid|]; [|apply NR_quiet; reflexivity].
-    destruct (negb (memN h _)); [apply NR_quiet; reflexivity|]. destruct (negb (transport s)); [apply NR_quiet; reflexivity|].
-    set (rest := remove1 h match assoc subid (subs s) with Some l => l | None => [] end).
-    set (s0 := set_subs s (assoc_set subid rest (subs s))).
-    destruct rest as [|x rest'].
-    + pose proof (new_request_sent_ids cfg s0 KUnsubscribe None subid (fun id => MUnsubscribe id subid)
-               true [ApiReturned (Some (next_fut s0))] [ApiRaised XTransportLost] (fun _ => eq_refl) eq_refl eq_refl) as HR.
-      unfold new_request in *. cbv zeta beta iota in *. destruct (send cfg _ _) as [o1 ok].
-      destruct ok; destruct HR as [A B]; now apply NR_one.
-    + match goal with |- context [complete fl cfg ?S ?F ?R] =>
-        pose proof (NR_complete fl cfg S F R) as Hc; destruct (complete fl cfg S F R) as [s2 o2] end.
-      simpl in *. apply (NR_out s s2 o2 [ApiReturned (Some (next_fut s0))]); [|reflexivity].
-      eapply NR_from; [|exact Hc]. reflexivity.
+  - (* AUnsubscribe *) apply NR_unsub_step.
   - (* ACancel *)
     destruct (is_done s f); [apply NR_quiet; reflexivity|]. destruct (assoc f (issued s)) as [[k id]|]; [|apply NR_quiet; reflexivity].
     destruct fl.
@@ -1639,6 +1663,14 @@ Proof.
     match goal with |- context [send cfg s ?M] => pose proof (send_nr cfg s M eq_refl) as Hs; destruct (send cfg s M) as [o1 ok] end.
     simpl in Hs. destruct ok; simpl; apply NR_quiet; try reflexivity; rewrite request_ids_app, Hs; reflexivity.
   - (* ADisconnect *) destruct (transport s); apply NR_quiet; reflexivity.
+  - (* AFail *)
+    destruct (is_fail_op o); [|apply NR_quiet; reflexivity].
+    assert (H1 : let r := (match o with AUnsubscribe h => unsub_step fl cfg (set_failnext s (Some e)) h
+                           | _ => api_step cfg (set_failnext s (Some e)) o end) in NR s (fst r) (snd r)).
+    { destruct o; try (eapply NR_from; [|apply NR_api_step]; reflexivity). eapply NR_from; [|apply NR_unsub_step]. reflexivity. }
+    destruct (match o with AUnsubscribe h => unsub_step fl cfg (set_failnext s (Some e)) h
+              | _ => api_step cfg (set_failnext s (Some e)) o end) as [s1 o1]. simpl in *.
+    unfold NR in *. simpl. exact H1.
   - (* AReact *) destruct (is_react_op o && negb (is_done s f) && isNoneB (assoc f (reacts s))); apply NR_quiet; reflexivity.
 Qed.
 
@@ -1704,16 +1736,22 @@ Proof.
   destruct m; try reflexivity. exfalso. eapply H. reflexivity.
 Qed.
 
+Lemma send_req_lq : forall cfg s m, (forall r, m <> MGoodbye r) -> levs (fst (send_req cfg s m)) = [].
+Proof.
+  intros cfg s m H. unfold send_req. destruct (failnext s); [|now apply send_lq]. simpl.
+  destruct m; try reflexivity.
+Qed.
+
 Lemma new_request_lq : forall cfg s k co t (mk : N -> wmsg) (keep : bool) tail_ok tail_bad,
   (forall id r, mk id <> MGoodbye r) -> levs tail_ok = [] -> levs tail_bad = [] ->
   let r := (let '(s1, id, f) := new_request s k co t in
-            let '(o1, ok) := send cfg s1 (mk id) in
+            let '(o1, ok) := send_req cfg s1 (mk id) in
             if ok then (s1, o1 ++ tail_ok)
             else ((if keep then s1 else drop_request s1 k id f), o1 ++ tail_bad)) in
   LQ s (fst r) (snd r).
 Proof.
   intros cfg s k co t mk keep tail_ok tail_bad Hmk Hok Hbad. unfold new_request. cbv zeta beta iota.
-  match goal with |- context [send cfg ?S ?M] => pose proof (send_lq cfg S M (Hmk _)) as Hs; destruct (send cfg S M) as [o1 ok] end.
+  match goal with |- context [send_req cfg ?S ?M] => pose proof (send_req_lq cfg S M (Hmk _)) as Hs; destruct (send_req cfg S M) as [o1 ok] end.
   simpl in Hs. destruct ok; [|destruct keep]; unfold LQ; simpl; rewrite levs_app, Hs, ?Hok, ?Hbad; split; reflexivity.
 Qed.
 
@@ -1724,40 +1762,40 @@ Proof.
     exact (new_request_lq cfg s KCall o uri
              (fun id => MCall id uri a kw match o with Some c => co_timeout c | None => None end
                               match o with Some c => co_progress c | None => false end)
-             false [ApiReturned (Some (next_fut s))] [ApiRaised XTransportLost]
+             false [ApiReturned (Some (next_fut s))] [ApiRaised (send_exn s)]
              (fun _ _ E => ltac:(discriminate E)) eq_refl eq_refl).
   - destruct (negb (transport s)); [split; reflexivity|]. destruct (po_wants_ack o).
     + exact (new_request_lq cfg s KPublish None uri
                (fun id => MPublish id uri a kw match o with Some p => po_ack p | None => None end
                                    match o with Some p => po_exclude_me p | None => None end)
-               false [ApiReturned (Some (next_fut s))] [ApiRaised XTransportLost]
+               false [ApiReturned (Some (next_fut s))] [ApiRaised (send_exn s)]
                (fun _ _ E => ltac:(discriminate E)) eq_refl eq_refl).
     + unfold new_id_only.
-      match goal with |- context [send cfg ?S ?M] =>
+      match goal with |- context [send_req cfg ?S ?M] =>
         assert (Hm : forall r, M <> MGoodbye r) by (intros r E; discriminate);
-        pose proof (send_lq cfg S M Hm) as Hs; destruct (send cfg S M) as [o1 ok] end.
+        pose proof (send_req_lq cfg S M Hm) as Hs; destruct (send_req cfg S M) as [o1 ok] end.
       simpl in Hs. unfold LQ. simpl. rewrite levs_app, Hs. destruct ok; split; reflexivity.
   - destruct (negb (transport s)); [split; reflexivity|].
     pose proof (new_request_lq cfg s KSubscribe None uri
              (fun id => MSubscribe id uri match o with Some c => opt_default (so_match c) | None => 0 end
                                    match o with Some c => so_get_retained c | None => None end)
-             true [ApiReturned (Some (next_fut s))] [ApiRaised XTransportLost]
+             true [ApiReturned (Some (next_fut s))] [ApiRaised (send_exn s)]
              (fun _ _ E => ltac:(discriminate E)) eq_refl eq_refl) as HR.
-    unfold new_request in *. cbv zeta beta iota in *. destruct (send cfg _ _) as [o1 ok]. destruct ok; exact HR.
+    unfold new_request in *. cbv zeta beta iota in *. destruct (send_req cfg _ _) as [o1 ok]. destruct ok; exact HR.
   - destruct (negb (transport s)); [split; reflexivity|].
     pose proof (new_request_lq cfg s KRegister None uri
              (fun id => MRegister id uri match o with Some c => opt_default (ro_match c) | None => 0 end
                                   match o with Some c => opt_default (ro_invoke c) | None => 0 end)
-             true [ApiReturned (Some (next_fut s))] [ApiRaised XTransportLost]
+             true [ApiReturned (Some (next_fut s))] [ApiRaised (send_exn s)]
              (fun _ _ E => ltac:(discriminate E)) eq_refl eq_refl) as HR.
-    unfold new_request in *. cbv zeta beta iota in *. destruct (send cfg _ _) as [o1 ok]. destruct ok; exact HR.
+    unfold new_request in *. cbv zeta beta iota in *. destruct (send_req cfg _ _) as [o1 ok]. destruct ok; exact HR.
   - destruct (reg_id_of s h) as [regid|]; [|split; reflexivity].
     destruct (assoc regid (regs s)) as [h'|]; [|split; reflexivity].
     destruct (negb (h' =? h)); [split; reflexivity|]. destruct (negb (transport s)); [split; reflexivity|].
     pose proof (new_request_lq cfg s KUnregister None regid (fun id => MUnregister id regid)
-             true [ApiReturned (Some (next_fut s))] [ApiRaised XTransportLost]
+             true [ApiReturned (Some (next_fut s))] [ApiRaised (send_exn s)]
              (fun _ _ E => ltac:(discriminate E)) eq_refl eq_refl) as HR.
-    unfold new_request in *. cbv zeta beta iota in *. destruct (send cfg _ _) as [o1 ok]. destruct ok; exact HR.
+    unfold new_request in *. cbv zeta beta iota in *. destruct (send_req cfg _ _) as [o1 ok]. destruct ok; exact HR.
 Qed.
 
 Lemma LQ_react : forall cfg s f, LQ s (fst (react cfg s f)) (snd (react cfg s f)).
@@ -1831,26 +1869,32 @@ Qed.
 Definition is_quiet_api (o : op) : bool :=
   match o with
   | ACall _ _ _ _ | APublish _ _ _ _ | ASubscribe _ _ | ARegister _ _ | AUnsubscribe _ | AUnregister _ | ACancel _
-  | AReact _ _ => true
+  | AFail _ _ | AReact _ _ => true
   | _ => false
   end.
 
-(* request API calls and cancel are invisible to the life-cycle *)
-Lemma LQ_api : forall fl cfg s o, is_quiet_api o = true -> LQ s (fst (step fl cfg s o)) (snd (step fl cfg s o)).
+Lemma LQ_unsub_step : forall fl cfg s h, LQ s (fst (unsub_step fl cfg s h)) (snd (unsub_step fl cfg s h)).
 Proof.
-  intros fl cfg s o Hq. destruct o; try discriminate; clear Hq; try apply LQ_api_step; unfold step; cbv beta iota.
-  - destruct (sub_id_of s h) as [subid|]; [|split; reflexivity].
+  intros fl cfg s h. unfold unsub_step.
+  destruct (sub_id_of s h) as [subid|]; [|split; reflexivity].
     destruct (negb (memN h _)); [split; reflexivity|]. destruct (negb (transport s)); [split; reflexivity|].
     set (rest := remove1 h match assoc subid (subs s) with Some l => l | None => [] end).
     set (s0 := set_subs s (assoc_set subid rest (subs s))).
     destruct rest as [|x rest'].
     + pose proof (new_request_lq cfg s0 KUnsubscribe None subid (fun id => MUnsubscribe id subid)
-               true [ApiReturned (Some (next_fut s0))] [ApiRaised XTransportLost]
+               true [ApiReturned (Some (next_fut s0))] [ApiRaised (send_exn s0)]
                (fun _ _ E => ltac:(discriminate E)) eq_refl eq_refl) as HR.
-      unfold new_request in *. cbv zeta beta iota in *. destruct (send cfg _ _) as [o1 ok]. destruct ok; exact HR.
+      unfold new_request in *. cbv zeta beta iota in *. destruct (send_req cfg _ _) as [o1 ok]. destruct ok; exact HR.
     + match goal with |- context [complete fl cfg ?S ?F ?R] =>
         pose proof (LQ_complete fl cfg S F R) as [A B]; destruct (complete fl cfg S F R) as [s2 o2] end.
       simpl in *. split; [exact A | exact B].
+Qed.
+
+(* request API calls and cancel are invisible to the life-cycle *)
+Lemma LQ_api : forall fl cfg s o, is_quiet_api o = true -> LQ s (fst (step fl cfg s o)) (snd (step fl cfg s o)).
+Proof.
+  intros fl cfg s o Hq. destruct o; try discriminate; clear Hq; try apply LQ_api_step; unfold step; cbv beta iota.
+  - apply LQ_unsub_step.
   - destruct (is_done s f); [split; reflexivity|]. destruct (assoc f (issued s)) as [[k id]|]; [|split; reflexivity].
     destruct fl.
     + assert (Hc : forall tail, levs tail = [] ->
@@ -1866,6 +1910,15 @@ Proof.
       destruct (complete Tx cfg s f (RErr ECancelled)) as [s1 o2]. simpl in *.
       split; [rewrite levs_app, Hs, levs_app, A; reflexivity | exact B].
     + destruct k; split; reflexivity.
+  - destruct (is_fail_op o); [|split; reflexivity].
+    assert (H1 : let r := (match o with AUnsubscribe h => unsub_step fl cfg (set_failnext s (Some e)) h
+                           | _ => api_step cfg (set_failnext s (Some e)) o end) in LQ s (fst r) (snd r)).
+    { destruct o; try (destruct (LQ_api_step cfg (set_failnext s (Some e)) o) as [A B]; split; [exact A | exact B]);
+        try (match goal with |- context [api_step cfg ?S ?O] => destruct (LQ_api_step cfg S O) as [A B]; split; [exact A | exact B] end).
+      destruct (LQ_unsub_step fl cfg (set_failnext s (Some e)) h) as [A B]. split; [exact A | exact B]. }
+    destruct (match o with AUnsubscribe h => unsub_step fl cfg (set_failnext s (Some e)) h
+              | _ => api_step cfg (set_failnext s (Some e)) o end) as [s1 o1]. simpl in *.
+    destruct H1 as [A B]. split; [exact A | exact B].
   - destruct (is_react_op o && negb (is_done s f) && isNoneB (assoc f (reacts s))); split; reflexivity.
 Qed.
 
@@ -1880,7 +1933,7 @@ Proof. intros. unfold send, send_ok. destruct (topen s); [|destruct (t_lenient c
 
 Definition spec_levs (cfg : ucfg) (s : sess) (o : op) : list levent :=
   match o with
-  | OOpen => if opened s then [] else [LvConnect]
+  | OOpen => if transport s then [] else [LvConnect]
   | OLost _ => if transport s then (if sid_truthy s then [LvLeave] else []) ++ [LvDisconnect] else []
   | ALeave _ => if sid_truthy s && negb (goodbye_sent s) && transport s && topen s then [LvGoodbye] else []
   | RWelcome _ => if transport s && isNone (sid s) && match u_welcome cfg with WlNone => true | _ => false end
@@ -1898,7 +1951,7 @@ Definition spec_levs (cfg : ucfg) (s : sess) (o : op) : list levent :=
 
 Definition spec_lcore (cfg : ucfg) (s : sess) (o : op) : bool * bool * option N * bool :=
   match o with
-  | OOpen => if opened s then lcore s
+  | OOpen => if transport s then lcore s
              else (true, true, sid s,
                    match u_connect cfg with CnJoin => if sid_truthy s then goodbye_sent s else false | CnRaise => goodbye_sent s end)
   | OLost _ => if transport s then (opened s, false, (if sid_truthy s then None else sid s), goodbye_sent s) else lcore s
@@ -1968,7 +2021,7 @@ Proof.
                   assert (Hng : forall r, O <> RGoodbye r) by (intros r E; discriminate);
                   destruct (LQ_established Tx cfg s O Hng) as [A B]; rewrite A, B; split; reflexivity end ].
   - (* OOpen *)
-    unfold step. simpl. destruct (opened s); [split; reflexivity|]. simpl.
+    unfold step. simpl. destruct (transport s) eqn:Et; [split; reflexivity|]. simpl.
     destruct (u_connect cfg); [|split; reflexivity].
     unfold sid_truthy. simpl. fold (sid_truthy s). destruct (sid_truthy s); [split; reflexivity|]. simpl.
     unfold send. simpl. split; reflexivity.
@@ -2059,8 +2112,9 @@ Qed.
 (* ---- the order automaton (Twisted) ---- *)
 Inductive mstate := MFresh | MUnjoined | MJoined | MClosed.
 
-(* connect first and once; join only while not joined; leave ends a joined session or reports an abort while not
-   joined; GOODBYE goes out only on a joined session; disconnect once, and nothing after it *)
+(* One object lives through a sequence of connections (lives).  In every life: connect first and once; join only
+   while not joined; leave ends a joined session or reports an abort while not joined; GOODBYE goes out only on a
+   joined session; disconnect once; after a disconnect nothing but the connect of the next life *)
 Definition mstep (m : mstate) (e : levent) : option mstate :=
   match m, e with
   | MFresh, LvConnect => Some MUnjoined
@@ -2070,6 +2124,7 @@ Definition mstep (m : mstate) (e : levent) : option mstate :=
   | MJoined, LvGoodbye => Some MJoined
   | MUnjoined, LvDisconnect => Some MClosed
   | MJoined, LvDisconnect => Some MClosed
+  | MClosed, LvConnect => Some MUnjoined
   | _, _ => None
   end.
 
@@ -2093,11 +2148,18 @@ Definition wf_of (c : bool * bool * option N * bool) : Prop :=
 Definition wf (s : sess) : Prop := wf_of (lcore s).
 
 Lemma tx_step_mon : forall cfg s o, wf s ->
-  wf (fst (step Tx cfg s o)) /\ mrun (mon s) (levs (snd (step Tx cfg s o))) = Some (mon (fst (step Tx cfg s o))).
+  wf (fst (step Tx cfg s o)) /\
+  ((o = OOpen -> sid s <> Some 0) -> mrun (mon s) (levs (snd (step Tx cfg s o))) = Some (mon (fst (step Tx cfg s o)))).
 Proof.
   intros cfg s o Hwf. destruct (tx_step_spec cfg s o) as [A B]. unfold wf, mon in *. rewrite A, B. clear A B.
-  destruct o; cbn [spec_levs spec_lcore]; try (split; [exact Hwf | reflexivity]);
-  unfold lcore in *; unfold wf_of in Hwf; destruct Hwf as [W1 W2];
+  destruct o; cbn [spec_levs spec_lcore]; try (split; [exact Hwf | intros _; reflexivity]).
+  1: { (* OOpen: the next life *)
+    destruct (transport s) eqn:Et; [split; [exact Hwf | intros _; reflexivity]|].
+    unfold lcore in *. unfold wf_of in Hwf. destruct Hwf as [W1 W2]. rewrite Et in *.
+    split; [unfold wf_of; split; intros; discriminate|]. intro Hre. specialize (Hre eq_refl).
+    destruct (W2 eq_refl) as [E|E]; rewrite E in *; [|exfalso; apply Hre; reflexivity].
+    unfold mon_of. destruct (opened s); reflexivity. }
+  all: unfold lcore in *; unfold wf_of in Hwf; destruct Hwf as [W1 W2];
   unfold lcore, sid_truthy, send_ok, isNone, wf_of, mon_of;
     destruct (opened s); destruct (transport s); destruct (sid s) as [n|]; destruct (goodbye_sent s);
     try (destruct (W1 eq_refl) as [? [? ?]]; discriminate);
@@ -2114,67 +2176,113 @@ Qed.
 Lemma wf_init : wf init.
 Proof. unfold wf, wf_of, lcore. simpl. split; intros; auto. Qed.
 
-Lemma tx_run_mon : forall cfg ops s, wf s ->
-  wf (fst (run Tx cfg s ops)) /\
+(* session id 0 is never forgotten (the code tests the id for truth): it can only come from a WELCOME carrying it *)
+Lemma tx_step_sid0 : forall cfg s o, sid (fst (step Tx cfg s o)) = Some 0 -> sid s = Some 0 \/ o = RWelcome 0.
+Proof.
+  intros cfg s o He. destruct (tx_step_spec cfg s o) as [_ B].
+  assert (Hsid : sid (fst (step Tx cfg s o)) = snd (fst (spec_lcore cfg s o))) by (rewrite <- B; reflexivity).
+  rewrite Hsid in He. clear B Hsid.
+  destruct o; unfold spec_lcore, lcore, isNone in *; simpl in *; try (left; exact He).
+  - destruct (transport s); simpl in He; left; exact He.
+  - destruct (transport s); simpl in He; [|left; exact He]. destruct (sid_truthy s); simpl in He; [discriminate | left; exact He].
+  - destruct (sid_truthy s && negb (goodbye_sent s) && transport s && send_ok cfg s); simpl in He; left; exact He.
+  - destruct (transport s && match sid s with None => true | Some _ => false end
+              && match u_welcome cfg with WlNone => true | _ => false end); simpl in He; [|left; exact He].
+    right. inversion He. reflexivity.
+  - destruct (transport s && negb match sid s with None => true | Some _ => false end && (goodbye_sent s || send_ok cfg s));
+      simpl in He; [discriminate | left; exact He].
+Qed.
+
+(* the hypothesis of the order theorems: the router does not hand out session id 0 to an object that is connected
+   again later.  (Such an object keeps id 0 for ever, see [tx_order_refuted_session_id_zero_next_life].)  Histories
+   with a single connection satisfy it whatever the router sends *)
+Definition is_open (o : op) : bool := match o with OOpen => true | _ => false end.
+Definition is_welcome0 (o : op) : bool := match o with RWelcome 0 => true | _ => false end.
+Fixpoint lives_ok (ops : list op) : bool :=
+  match ops with
+  | [] => true
+  | o :: t => (negb (is_welcome0 o) || negb (existsb is_open t)) && lives_ok t
+  end.
+
+Lemma lives_ok_single : forall ops, existsb is_open ops = false -> lives_ok ops = true.
+Proof.
+  induction ops as [|o t IH]; simpl; intro H; [reflexivity|]. apply orb_false_iff in H as [_ H].
+  rewrite H, IH by assumption. rewrite orb_true_r. reflexivity.
+Qed.
+
+Lemma tx_run_wf : forall cfg ops s, wf s -> wf (fst (run Tx cfg s ops)).
+Proof.
+  induction ops as [|o t IH]; simpl; intros s Hwf; [assumption|].
+  destruct (tx_step_mon cfg s o Hwf) as [W1 _]. destruct (step Tx cfg s o) as [s1 o1]. simpl in *.
+  specialize (IH s1 W1). destruct (run Tx cfg s1 t) as [s2 tr]. exact IH.
+Qed.
+
+Lemma tx_run_mon : forall cfg ops s, wf s -> lives_ok ops = true -> (sid s = Some 0 -> existsb is_open ops = false) ->
   mrun (mon s) (levs (concat (snd (run Tx cfg s ops)))) = Some (mon (fst (run Tx cfg s ops))).
 Proof.
-  induction ops as [|o t IH]; simpl; intros s Hwf; [split; [assumption | reflexivity]|].
-  destruct (tx_step_mon cfg s o Hwf) as [W1 M1]. destruct (step Tx cfg s o) as [s1 o1]. simpl in *.
-  destruct (IH s1 W1) as [W2 M2]. destruct (run Tx cfg s1 t) as [s2 tr]. simpl in *.
-  split; [assumption|]. rewrite levs_app, mrun_app, M1. exact M2.
+  induction ops as [|o t IH]; simpl; intros s Hwf Hl H0; [reflexivity|].
+  apply andb_prop in Hl as [Hl1 Hl2].
+  assert (Hre : o = OOpen -> sid s <> Some 0).
+  { intros Eo E. subst o. specialize (H0 E). simpl in H0. discriminate. }
+  destruct (tx_step_mon cfg s o Hwf) as [W1 M1]. specialize (M1 Hre).
+  pose proof (tx_step_sid0 cfg s o) as Hs0.
+  destruct (step Tx cfg s o) as [s1 o1]. simpl in *.
+  assert (H1 : sid s1 = Some 0 -> existsb is_open t = false).
+  { intro E. destruct (Hs0 E) as [E0|E0].
+    - specialize (H0 E0). apply orb_false_iff in H0. tauto.
+    - subst o. simpl in Hl1. destruct (existsb is_open t); [discriminate | reflexivity]. }
+  specialize (IH s1 W1 Hl2 H1). destruct (run Tx cfg s1 t) as [s2 tr]. simpl in *.
+  rewrite levs_app, mrun_app, M1. exact IH.
 Qed.
 
 (* every history of life-cycle callbacks is a word of the automaton *)
-Theorem tx_order : forall cfg ops,
+Theorem tx_order : forall cfg ops, lives_ok ops = true ->
   mrun MFresh (levs (trace Tx cfg ops)) = Some (mon (final Tx cfg ops)).
-Proof. intros. exact (proj2 (tx_run_mon cfg ops init wf_init)). Qed.
+Proof. intros cfg ops H. apply (tx_run_mon cfg ops init wf_init H). intro E. discriminate E. Qed.
+
+(* without the hypothesis: an object that was given session id 0 keeps it through the loss of its transport (the id is
+   tested for truth), refuses to join in its next life ("already joined") and takes router messages for a session it
+   never joined there *)
+Theorem tx_order_refuted_session_id_zero_next_life :
+  exists cfg ops, mrun MFresh (levs (trace Tx cfg ops)) = None.
+Proof. exists default_cfg, [OOpen; RWelcome 0; OLost false; OOpen; RGoodbye RsNormal]. vm_compute. reflexivity. Qed.
 
 (* what the automaton's language implies, in plain terms *)
-Lemma mrun_closed : forall es m, mrun MClosed es = Some m -> es = [].
-Proof. destruct es as [|e t]; [reflexivity|]. simpl. destruct e; discriminate. Qed.
-
-Lemma mrun_no_connect : forall es m m', m <> MFresh -> mrun m es = Some m' -> ~ In LvConnect es /\ m' <> MFresh.
+(* a connect is the very first event or follows a disconnect immediately: one connect per life *)
+Theorem automaton_connect_starts_life : forall a b m m',
+  mrun m (a ++ LvConnect :: b) = Some m' -> a = [] \/ exists a', a = a' ++ [LvDisconnect].
 Proof.
-  induction es as [|e t IH]; simpl; intros m m' Hm H; [inversion H; subst; split; auto|].
+  induction a as [|e t IH]; intros b m m' H; [now left|]. right. simpl in H.
   destruct (mstep m e) as [m1|] eqn:E; [|discriminate].
-  assert (m1 <> MFresh) by (destruct m, e; simpl in E; inversion E; discriminate).
-  destruct (IH _ _ H0 H) as [Hn Hm']. split; [|assumption].
-  intros [->|Hin]; [destruct m; simpl in E; try discriminate; contradiction | contradiction].
+  destruct (IH _ _ _ H) as [Ht|[a' Ha]].
+  - subst t. simpl in H. exists []. simpl. f_equal.
+    destruct m1; simpl in H; try discriminate; destruct m, e; simpl in E; try discriminate; reflexivity.
+  - exists (e :: a'). simpl. rewrite Ha. reflexivity.
 Qed.
 
-Theorem automaton_connect_once : forall es m, mrun MFresh es = Some m ->
-  es = [] \/ exists t, es = LvConnect :: t /\ ~ In LvConnect t.
+(* a disconnect is the last event or is followed immediately by the connect of the next life: one disconnect per
+   life, and nothing happens on an object that has no transport *)
+Theorem automaton_disconnect_ends_life : forall m a b m',
+  mrun m (a ++ LvDisconnect :: b) = Some m' -> b = [] \/ exists b', b = LvConnect :: b'.
 Proof.
-  destruct es as [|e t]; [now left|]. simpl. intros m H. right. destruct e; try discriminate.
-  exists t. split; [reflexivity|]. eapply mrun_no_connect; [|eassumption]. discriminate.
+  intros m a b m' H. rewrite mrun_app in H. destruct (mrun m a) as [m1|]; [|discriminate]. simpl in H.
+  destruct (mstep m1 LvDisconnect) as [m2|] eqn:E; [|discriminate].
+  assert (m2 = MClosed) by (destruct m1; simpl in E; inversion E; reflexivity). subst.
+  destruct b as [|e t]; [now left|]. right. destruct e; simpl in H; try discriminate. eexists; reflexivity.
 Qed.
 
-Theorem automaton_disconnect_last : forall m a b m',
-  mrun m (a ++ LvDisconnect :: b) = Some m' -> b = [] /\ ~ In LvDisconnect a.
-Proof.
-  intros m a b m' H. revert m H. induction a as [|e t IH]; simpl; intros m H.
-  - destruct (mstep m LvDisconnect) as [m1|] eqn:E; [|discriminate].
-    assert (m1 = MClosed) by (destruct m; simpl in E; inversion E; reflexivity). subst.
-    split; [eapply mrun_closed; eassumption | intros []].
-  - destruct (mstep m e) as [m1|] eqn:E; [|discriminate]. destruct (IH _ H) as [Hb Hn]. split; [assumption|].
-    intros [->|Hin]; [|contradiction].
-    assert (m1 = MClosed) by (destruct m; simpl in E; inversion E; reflexivity). subst.
-    rewrite mrun_app in H. simpl in H. destruct t; simpl in H; [discriminate | destruct l; discriminate].
-Qed.
-
-
-(* two joins are separated by a leave: a join is only accepted while not joined *)
-Lemma mrun_joined_to_unjoined : forall l, mrun MJoined l = Some MUnjoined -> In LvLeave l.
+(* two joins are separated by a leave, or by the end of the connection (a session with id 0 cannot be left) *)
+Lemma mrun_joined_to_unjoined : forall l, mrun MJoined l = Some MUnjoined -> In LvLeave l \/ In LvDisconnect l.
 Proof.
   induction l as [|e t IH]; simpl; intro H; [discriminate|].
   destruct e; simpl in H; try discriminate.
-  - now left.
-  - destruct t as [|e2 t2]; simpl in H; [discriminate | destruct e2; discriminate].
-  - right. now apply IH.
+  - left. now left.
+  - right. now left.
+  - destruct (IH H) as [?|?]; [left | right]; now right.
 Qed.
 
 Theorem automaton_join_needs_leave : forall m m' a b c,
-  mrun m (a ++ LvJoin :: b ++ LvJoin :: c) = Some m' -> In LvLeave b.
+  mrun m (a ++ LvJoin :: b ++ LvJoin :: c) = Some m' -> In LvLeave b \/ In LvDisconnect b.
 Proof.
   intros m m' a b c H. rewrite mrun_app in H. destruct (mrun m a) as [m1|]; [|discriminate].
   simpl in H. destruct (mstep m1 LvJoin) as [m2|] eqn:E; [|discriminate].
@@ -2198,7 +2306,7 @@ Lemma grun_app : forall a b g, grun g (a ++ b) = match grun g a with Some g' => 
 Proof. induction a as [|e t IH]; simpl; intros b g; [reflexivity|]. destruct e; try apply IH. destruct g; [reflexivity | apply IH]. Qed.
 
 Definition GR_of (c : bool * bool * option N * bool) (gb : bool) : Prop :=
-  let '(_, _, sd, gs) := c in gb = true -> gs = true \/ sd = None.
+  let '(_, _, sd, gs) := c in gb = true -> (gs = true /\ sd <> Some 0) \/ sd = None.
 
 Lemma tx_step_goodbye : forall cfg s o gb, wf s -> GR_of (lcore s) gb ->
   exists gb', grun gb (levs (snd (step Tx cfg s o))) = Some gb' /\ GR_of (lcore (fst (step Tx cfg s o))) gb'.
@@ -2215,7 +2323,12 @@ Proof.
     try (destruct (topen s)); try (destruct (t_lenient cfg)); simpl;
     try (eexists; split; [reflexivity|]; intros; auto; fail);
     destruct gb; simpl; try (eexists; split; [reflexivity|]; intros; auto; fail);
-    try (destruct (HG eq_refl) as [?|?]; discriminate).
+    try (destruct (HG eq_refl) as [[? ?]|?]; discriminate).
+  all: try (eexists; split; [reflexivity|]; intro Hx; discriminate Hx).
+  all: try (destruct (HG eq_refl) as [[Hg Hn]|Hn]; try discriminate; exfalso; apply Hn; apply N.eqb_eq in En; subst; reflexivity).
+  all: try (eexists; split; [reflexivity|]; intros _; left; split; [reflexivity|];
+            first [ destruct (HG eq_refl) as [[_ Hn]|Hn]; [exact Hn | discriminate Hn]
+                  | intro Hx; inversion Hx; subst; cbv in En; discriminate En ]).
 Qed.
 
 Lemma tx_run_goodbye : forall cfg ops s gb, wf s -> GR_of (lcore s) gb ->
@@ -2252,7 +2365,7 @@ Proof.
   destruct o; unfold spec_levs, isNone; simpl;
     try (split; [intros [] | intros [_ [[? [E _]]|[[? [E _]]|[[? [E _]]|[E _]]]]]; discriminate E]).
   - (* OOpen *)
-    destruct (opened s); simpl;
+    destruct (transport s); simpl;
       (split; [intros H; repeat (destruct H as [H|H]; try discriminate H); try contradiction
               | intros [_ [[? [E _]]|[[? [E _]]|[[? [E _]]|[E _]]]]]; discriminate E]).
   - (* OLost *)
@@ -2311,7 +2424,7 @@ Proof.
   assert (Hsid : sid (fst (step Tx cfg s o)) = snd (fst (spec_lcore cfg s o))) by (rewrite <- B; reflexivity).
   rewrite Hsid in He. clear A B Hsid.
   destruct o; unfold spec_levs, spec_lcore, lcore, isNone in *; simpl in *; try contradiction.
-  - destruct (opened s); simpl in He; contradiction.
+  - destruct (transport s); simpl in He; contradiction.
   - destruct (transport s); simpl in *; [|contradiction]. destruct (sid_truthy s); simpl in *; [now left | contradiction].
   - destruct (sid_truthy s && negb (goodbye_sent s) && transport s && send_ok cfg s); simpl in He; contradiction.
   - destruct (transport s && match sid s with None => true | Some _ => false end
@@ -2322,16 +2435,22 @@ Proof.
     destruct (t_lenient cfg); simpl in *; [|discriminate]. destruct (transport s); simpl in *; [now left | discriminate].
 Qed.
 
-(* the closing-handshake flag is raised by leave() and by nothing else *)
-Theorem tx_goodbye_flag : forall cfg s o, opened s = true ->
+(* the closing-handshake flag is raised by leave() and by nothing else; it is lowered by join() -- at the start of
+   every life whose onConnect joins -- and by nothing else *)
+Theorem tx_goodbye_flag : forall cfg s o,
   goodbye_sent (fst (step Tx cfg s o)) =
-  goodbye_sent s || match o with ALeave _ => sid_truthy s && transport s && send_ok cfg s | _ => false end.
+  match o with
+  | OOpen => if transport s then goodbye_sent s
+             else match u_connect cfg with CnJoin => if sid_truthy s then goodbye_sent s else false | CnRaise => goodbye_sent s end
+  | ALeave _ => goodbye_sent s || (sid_truthy s && transport s && send_ok cfg s)
+  | _ => goodbye_sent s
+  end.
 Proof.
-  intros cfg s o Hop. destruct (tx_step_spec cfg s o) as [_ B].
+  intros cfg s o. destruct (tx_step_spec cfg s o) as [_ B].
   assert (Hg : goodbye_sent (fst (step Tx cfg s o)) = snd (spec_lcore cfg s o)) by (rewrite <- B; reflexivity).
   rewrite Hg. clear B Hg.
   destruct o; unfold spec_lcore, lcore; simpl; rewrite ?orb_false_r; try reflexivity.
-  - rewrite Hop. reflexivity.
+  - destruct (transport s); reflexivity.
   - destruct (transport s); reflexivity.
   - destruct (sid_truthy s); simpl; [|rewrite orb_false_r; reflexivity].
     destruct (goodbye_sent s); simpl; [reflexivity|]. destruct (transport s); simpl; [|reflexivity].
@@ -2339,6 +2458,7 @@ Proof.
   - destruct (transport s && isNone (sid s) && match u_welcome cfg with WlNone => true | _ => false end); reflexivity.
   - destruct (transport s && negb (isNone (sid s)) && (goodbye_sent s || send_ok cfg s)); reflexivity.
 Qed.
+
 
 (* ---------------------------------------------------------------------------------------------------------- *)
 (* what can leave an entry point                                                                              *)
@@ -2352,24 +2472,27 @@ Proof. unfold pe_only. intros. rewrite forallb_app, H, H0. reflexivity. Qed.
 Lemma pe_send : forall cfg s m, pe_only (fst (send cfg s m)).
 Proof. intros. unfold send. destruct (topen s); [|destruct (t_lenient cfg && transport s)]; reflexivity. Qed.
 
+Lemma pe_send_req : forall cfg s m, pe_only (fst (send_req cfg s m)).
+Proof. intros. unfold send_req. destruct (failnext s); [reflexivity | apply pe_send]. Qed.
+
 Lemma pe_api_step : forall cfg s o, pe_only (snd (api_step cfg s o)).
 Proof.
   intros cfg s o. destruct o; try reflexivity; unfold api_step.
   - destruct (negb (transport s)); [reflexivity|]. unfold new_request. cbv zeta beta iota.
-    match goal with |- context [send cfg ?S ?M] => pose proof (pe_send cfg S M) as Hs; destruct (send cfg S M) as [o1 ok] end.
+    match goal with |- context [send_req cfg ?S ?M] => pose proof (pe_send_req cfg S M) as Hs; destruct (send_req cfg S M) as [o1 ok] end.
     simpl in Hs. destruct ok; simpl; (apply pe_app; [assumption | reflexivity]).
   - destruct (negb (transport s)); [reflexivity|]. destruct (po_wants_ack o); unfold new_request, new_id_only; cbv zeta beta iota;
-    match goal with |- context [send cfg ?S ?M] => pose proof (pe_send cfg S M) as Hs; destruct (send cfg S M) as [o1 ok] end;
+    match goal with |- context [send_req cfg ?S ?M] => pose proof (pe_send_req cfg S M) as Hs; destruct (send_req cfg S M) as [o1 ok] end;
     simpl in Hs; destruct ok; simpl; (apply pe_app; [assumption | reflexivity]).
   - destruct (negb (transport s)); [reflexivity|]. unfold new_request. cbv zeta beta iota.
-    match goal with |- context [send cfg ?S ?M] => pose proof (pe_send cfg S M) as Hs; destruct (send cfg S M) as [o1 ok] end.
+    match goal with |- context [send_req cfg ?S ?M] => pose proof (pe_send_req cfg S M) as Hs; destruct (send_req cfg S M) as [o1 ok] end.
     simpl in Hs. destruct ok; simpl; (apply pe_app; [assumption | reflexivity]).
   - destruct (negb (transport s)); [reflexivity|]. unfold new_request. cbv zeta beta iota.
-    match goal with |- context [send cfg ?S ?M] => pose proof (pe_send cfg S M) as Hs; destruct (send cfg S M) as [o1 ok] end.
+    match goal with |- context [send_req cfg ?S ?M] => pose proof (pe_send_req cfg S M) as Hs; destruct (send_req cfg S M) as [o1 ok] end.
     simpl in Hs. destruct ok; simpl; (apply pe_app; [assumption | reflexivity]).
   - destruct (reg_id_of s h) as [regid|]; [|reflexivity]. destruct (assoc regid (regs s)) as [h'|]; [|reflexivity].
     destruct (negb (h' =? h)); [reflexivity|]. destruct (negb (transport s)); [reflexivity|]. unfold new_request. cbv zeta beta iota.
-    match goal with |- context [send cfg ?S ?M] => pose proof (pe_send cfg S M) as Hs; destruct (send cfg S M) as [o1 ok] end.
+    match goal with |- context [send_req cfg ?S ?M] => pose proof (pe_send_req cfg S M) as Hs; destruct (send_req cfg S M) as [o1 ok] end.
     simpl in Hs. destruct ok; simpl; (apply pe_app; [assumption | reflexivity]).
 Qed.
 
@@ -2521,6 +2644,19 @@ Proof.
     apply (pe_app [Called CbChallenge]); [reflexivity | assumption].
 Qed.
 
+Lemma pe_unsub_step : forall fl cfg s h, pe_only (snd (unsub_step fl cfg s h)).
+Proof.
+  intros fl cfg s h. unfold unsub_step.
+  destruct (sub_id_of s h) as [subid|]; [|reflexivity]. destruct (negb (memN h _)); [reflexivity|].
+  destruct (negb (transport s)); [reflexivity|].
+  destruct (remove1 h match assoc subid (subs s) with Some l => l | None => [] end) as [|x rest'].
+  + unfold new_request. cbv zeta beta iota.
+    match goal with |- context [send_req cfg ?S ?M] => pose proof (pe_send_req cfg S M) as Hs; destruct (send_req cfg S M) as [o1 ok] end.
+    simpl in Hs. destruct ok; simpl; (apply pe_app; [assumption | reflexivity]).
+  + match goal with |- context [complete fl cfg ?S ?F ?R] => pose proof (pe_complete fl cfg S F R) as Hc; destruct (complete fl cfg S F R) as [s2 o2] end.
+    simpl in *. exact Hc.
+Qed.
+
 (* the one other exception an entry point can let through: the GOODBYE reply on a transport that refuses sends *)
 Definition goodbye_reply_refused (cfg : ucfg) (s : sess) (o : op) : Prop :=
   exists r, o = RGoodbye r /\ transport s = true /\ sid s <> None /\ goodbye_sent s = false /\ send_ok cfg s = false.
@@ -2535,7 +2671,7 @@ Proof.
                           else match sid s with None => on_message_unjoined fl cfg s o' | Some _ => on_message_established fl cfg s o' end))).
   { intros o' Hng. destruct (negb (transport s)); [reflexivity|]. destruct (sid s); [now apply pe_established | apply pe_unjoined]. }
   destruct o; try (left; apply Hrouter; intros r0 E; discriminate); try (left; apply pe_api_step); unfold step; cbv beta iota.
-  - left. destruct (opened s); [reflexivity | apply pe_defer].
+  - left. destruct (transport s); [reflexivity | apply pe_defer].
   - left. destruct (negb (transport s)); [reflexivity|].
     set (s0 := set_conn s (opened s) false false).
     assert (H3 : pe_only (snd (if sid_truthy s0
@@ -2553,14 +2689,7 @@ Proof.
     pose proof (pe_defer_leaf fl cfg s4 (LDiscK raised)) as H5. destruct (defer_leaf fl cfg s4 (LDiscK raised)) as [s5 o5].
     simpl in *. apply pe_app; [assumption | now apply pe_app].
   - left. destruct fl; [reflexivity | apply pe_run_queue].
-  - left. destruct (sub_id_of s h) as [subid|]; [|reflexivity]. destruct (negb (memN h _)); [reflexivity|].
-    destruct (negb (transport s)); [reflexivity|].
-    destruct (remove1 h match assoc subid (subs s) with Some l => l | None => [] end) as [|x rest'].
-    + unfold new_request. cbv zeta beta iota.
-      match goal with |- context [send cfg ?S ?M] => pose proof (pe_send cfg S M) as Hs; destruct (send cfg S M) as [o1 ok] end.
-      simpl in Hs. destruct ok; simpl; (apply pe_app; [assumption | reflexivity]).
-    + match goal with |- context [complete fl cfg ?S ?F ?R] => pose proof (pe_complete fl cfg S F R) as Hc; destruct (complete fl cfg S F R) as [s2 o2] end.
-      simpl in *. exact Hc.
+  - left. apply pe_unsub_step.
   - left. destruct (is_done s f); [reflexivity|]. destruct (assoc f (issued s)) as [[k id]|]; [|reflexivity].
     destruct fl; [|destruct k; reflexivity].
     assert (Hc : pe_only (snd (let '(s1, o2) := complete Tx cfg s f (RErr ECancelled) in (s1, o2 ++ [ApiReturned None])))).
@@ -2576,6 +2705,12 @@ Proof.
     match goal with |- context [send cfg s ?M] => pose proof (pe_send cfg s M) as Hs; destruct (send cfg s M) as [o1 ok] end.
     simpl in Hs. destruct ok; simpl; (apply pe_app; [assumption | reflexivity]).
   - left. destruct (transport s); reflexivity.
+  - left. destruct (is_fail_op o); [|reflexivity].
+    assert (H1 : pe_only (snd (match o with AUnsubscribe h => unsub_step fl cfg (set_failnext s (Some e)) h
+                                | _ => api_step cfg (set_failnext s (Some e)) o end))).
+    { destruct o; try apply pe_api_step. apply pe_unsub_step. }
+    destruct (match o with AUnsubscribe h => unsub_step fl cfg (set_failnext s (Some e)) h
+              | _ => api_step cfg (set_failnext s (Some e)) o end) as [s1 o1]. exact H1.
   - left. destruct (is_react_op o && negb (is_done s f) && isNoneB (assoc f (reacts s))); reflexivity.
   - (* RGoodbye *)
     destruct (transport s) eqn:Et; [|left; reflexivity]. simpl negb. cbv iota.
@@ -2645,7 +2780,7 @@ Definition api_request (s : sess) (a : op) : option (kind * option call_opts * N
    returning only afterwards -- finds the record and completes the future the call is about to return, with the
    reply's content; the call itself returns that future and does not raise. *)
 Theorem reply_during_send : forall fl cfg s a r v k co t c,
-  transport s = true -> topen s = true -> sid s = Some v -> is_done s (next_fut s) = false ->
+  transport s = true -> topen s = true -> failnext s = None -> sid s = Some v -> is_done s (next_fut s) = false ->
   assoc (next_fut s) (reacts s) = None ->
   api_request s a = Some (k, co, t) ->
   reply_spec r = Some (k, idgen_next (next_id s), c) ->
@@ -2658,7 +2793,7 @@ Theorem reply_during_send : forall fl cfg s a r v k co t c,
   /\ pend s2 = remove_req k (idgen_next (next_id s)) (put_req rq (pend s))
   /\ done s2 = done s ++ [(f, c rq)] /\ user_sees fl s1 s2 o2 f (c rq).
 Proof.
-  intros fl cfg s a r v k co t c Ht Ho Hs Hd Hno Ha Hr Hwf. cbv zeta.
+  intros fl cfg s a r v k co t c Ht Ho Hfn Hs Hd Hno Ha Hr Hwf. cbv zeta.
   assert (Hgen : forall s1 o1, step fl cfg s a = (s1, o1) ->
             transport s1 = true -> sid s1 = Some v -> regs s1 = regs s -> done s1 = done s -> reacts s1 = reacts s ->
             pend s1 = put_req (mkreq k (idgen_next (next_id s)) (next_fut s) co t) (pend s) ->
@@ -2682,45 +2817,148 @@ Proof.
     split; [assumption|]. split; [rewrite P1, Hp; reflexivity|]. split; [rewrite P2, Hdn; reflexivity | exact P3]. }
   destruct a; simpl in Ha; try discriminate.
   - (* ACall *) inversion Ha; subst.
-    destruct (call_one_message fl cfg s t a kw co Ht Ho) as [s1 [Hst [Hp [Hn [_ [Hdn _]]]]]].
+    destruct (call_one_message fl cfg s t a kw co Ht Ho Hfn) as [s1 [Hst [Hp [Hn [_ [Hdn _]]]]]].
     pose proof (Hgen s1 _ Hst) as G. rewrite Hst.
     apply G; try assumption; try (eexists; reflexivity);
-      unfold step, api_step in Hst; rewrite Ht in Hst; simpl in Hst; unfold send in Hst; simpl in Hst; rewrite Ho in Hst; simpl in Hst;
+      unfold step, api_step in Hst; rewrite Ht in Hst; simpl in Hst; unfold send_req, send in Hst; simpl in Hst; rewrite Hfn, Ho in Hst; simpl in Hst;
       inversion Hst; subst; simpl; assumption || reflexivity.
   - (* APublish *) destruct (po_wants_ack o) eqn:Ew; [|discriminate]. inversion Ha; subst.
-    destruct (publish_ack_one_message fl cfg s t a kw o Ht Ho Ew) as [s1 [Hst [Hp [Hn [_ [Hdn _]]]]]].
+    destruct (publish_ack_one_message fl cfg s t a kw o Ht Ho Hfn Ew) as [s1 [Hst [Hp [Hn [_ [Hdn _]]]]]].
     pose proof (Hgen s1 _ Hst) as G. rewrite Hst.
     apply G; try assumption; try (eexists; reflexivity);
-      unfold step, api_step in Hst; rewrite Ht in Hst; simpl in Hst; rewrite Ew in Hst; unfold send in Hst; simpl in Hst; rewrite Ho in Hst; simpl in Hst;
+      unfold step, api_step in Hst; rewrite Ht in Hst; simpl in Hst; rewrite Ew in Hst; unfold send_req, send in Hst; simpl in Hst; rewrite Hfn, Ho in Hst; simpl in Hst;
       inversion Hst; subst; simpl; assumption || reflexivity.
   - (* ASubscribe *) inversion Ha; subst.
-    destruct (subscribe_one_message fl cfg s t o Ht Ho) as [s1 [Hst [Hp [Hn [_ [Hdn _]]]]]].
+    destruct (subscribe_one_message fl cfg s t o Ht Ho Hfn) as [s1 [Hst [Hp [Hn [_ [Hdn _]]]]]].
     pose proof (Hgen s1 _ Hst) as G. rewrite Hst.
     apply G; try assumption; try (eexists; reflexivity);
-      unfold step, api_step in Hst; rewrite Ht in Hst; simpl in Hst; unfold send in Hst; simpl in Hst; rewrite Ho in Hst; simpl in Hst;
+      unfold step, api_step in Hst; rewrite Ht in Hst; simpl in Hst; unfold send_req, send in Hst; simpl in Hst; rewrite Hfn, Ho in Hst; simpl in Hst;
       inversion Hst; subst; simpl; assumption || reflexivity.
   - (* ARegister *) inversion Ha; subst.
-    destruct (register_one_message fl cfg s t o Ht Ho) as [s1 [Hst [Hp [Hn [_ [Hdn _]]]]]].
+    destruct (register_one_message fl cfg s t o Ht Ho Hfn) as [s1 [Hst [Hp [Hn [_ [Hdn _]]]]]].
     pose proof (Hgen s1 _ Hst) as G. rewrite Hst.
     apply G; try assumption; try (eexists; reflexivity);
-      unfold step, api_step in Hst; rewrite Ht in Hst; simpl in Hst; unfold send in Hst; simpl in Hst; rewrite Ho in Hst; simpl in Hst;
+      unfold step, api_step in Hst; rewrite Ht in Hst; simpl in Hst; unfold send_req, send in Hst; simpl in Hst; rewrite Hfn, Ho in Hst; simpl in Hst;
       inversion Hst; subst; simpl; assumption || reflexivity.
   - (* AUnsubscribe *)
     destruct (sub_id_of s h) as [i|] eqn:Ei; [|discriminate]. destruct (assoc i (subs s)) as [[|h' [|? ?]]|] eqn:Eas; try discriminate.
     destruct (h' =? h) eqn:Eh; [|discriminate]. apply N.eqb_eq in Eh. subst h'. inversion Ha; subst.
-    destruct (unsubscribe_one_message fl cfg s h t Ht Ho Ei Eas) as [s1 [Hst [Hp [Hn [_ [Hdn _]]]]]].
+    destruct (unsubscribe_one_message fl cfg s h t Ht Ho Hfn Ei Eas) as [s1 [Hst [Hp [Hn [_ [Hdn _]]]]]].
     pose proof (Hgen s1 _ Hst) as G. rewrite Hst.
     apply G; try assumption; try (eexists; reflexivity);
-      unfold step, api_step in Hst; rewrite Ei, Eas in Hst; simpl in Hst; rewrite N.eqb_refl in Hst; simpl in Hst; rewrite Ht in Hst; simpl in Hst;
-      unfold send in Hst; simpl in Hst; rewrite Ho in Hst; simpl in Hst; inversion Hst; subst; simpl; assumption || reflexivity.
+      unfold step, unsub_step in Hst; rewrite Ei, Eas in Hst; simpl in Hst; rewrite N.eqb_refl in Hst; simpl in Hst; rewrite Ht in Hst; simpl in Hst;
+      unfold send_req, send in Hst; simpl in Hst; rewrite Hfn, Ho in Hst; simpl in Hst; inversion Hst; subst; simpl; assumption || reflexivity.
   - (* AUnregister *)
     destruct (reg_id_of s h) as [i|] eqn:Ei; [|discriminate]. destruct (assoc i (regs s)) as [h'|] eqn:Eas; [|discriminate].
     destruct (h' =? h) eqn:Eh; [|discriminate]. apply N.eqb_eq in Eh. subst h'. inversion Ha; subst.
-    destruct (unregister_one_message fl cfg s h t Ht Ho Ei Eas) as [s1 [Hst [Hp [Hn [_ [Hdn _]]]]]].
+    destruct (unregister_one_message fl cfg s h t Ht Ho Hfn Ei Eas) as [s1 [Hst [Hp [Hn [_ [Hdn _]]]]]].
     pose proof (Hgen s1 _ Hst) as G. rewrite Hst.
     apply G; try assumption; try (eexists; reflexivity);
       unfold step, api_step in Hst; rewrite Ei, Eas in Hst; rewrite N.eqb_refl in Hst; simpl in Hst; rewrite Ht in Hst; simpl in Hst;
-      unfold send in Hst; simpl in Hst; rewrite Ho in Hst; simpl in Hst; inversion Hst; subst; simpl; assumption || reflexivity.
+      unfold send_req, send in Hst; simpl in Hst; rewrite Hfn, Ho in Hst; simpl in Hst; inversion Hst; subst; simpl; assumption || reflexivity.
+Qed.
+
+
+(* ---------------------------------------------------------------------------------------------------------- *)
+(* send() fails (SerializationError / PayloadExceededError / TransportLost), for each of the six request kinds *)
+(* ---------------------------------------------------------------------------------------------------------- *)
+Lemma remove_put : forall r l, remove_req (r_kind r) (r_id r) (put_req r l) = remove_req (r_kind r) (r_id r) l.
+Proof.
+  intros r l. induction l as [|x t IH]; simpl.
+  - assert (H : req_is (r_kind r) (r_id r) r = true) by (apply req_is_key; reflexivity). rewrite H. reflexivity.
+  - destruct (req_is (r_kind r) (r_id r) x) eqn:E; simpl.
+    + assert (H : req_is (r_kind r) (r_id r) r = true) by (apply req_is_key; reflexivity). rewrite H. reflexivity.
+    + rewrite E, IH. reflexivity.
+Qed.
+
+Lemma remove_req_absent : forall k i l, find_req k i l = None -> remove_req k i l = l.
+Proof.
+  induction l as [|x t IH]; simpl; intro H; [reflexivity|]. destruct (req_is k i x); [discriminate|]. rewrite IH by assumption. reflexivity.
+Qed.
+
+(* call() and publish() take the record back; the four other kinds have no try/except around send() *)
+Definition keeps_record (k : kind) : bool := match k with KCall | KPublish => false | _ => true end.
+
+(* whatever the exception: the API call raises it, nothing is sent, the id is consumed, no future is completed,
+   subscriptions / registrations / life-cycle untouched (except that _unsubscribe has already taken the handler off
+   its subscription); the request table is as the code leaves it *)
+Theorem failed_send : forall fl cfg s e a k co t,
+  transport s = true -> failnext s = None -> api_request s a = Some (k, co, t) ->
+  let '(s1, o1) := step fl cfg s (AFail e a) in
+  (exists m, o1 = [SendFailed m; ApiRaised e])
+  /\ next_id s1 = idgen_next (next_id s) /\ done s1 = done s /\ failnext s1 = None /\ lcore s1 = lcore s
+  /\ (k <> KUnsubscribe -> subs s1 = subs s) /\ regs s1 = regs s
+  /\ pend s1 = if keeps_record k then put_req (mkreq k (idgen_next (next_id s)) (next_fut s) co t) (pend s)
+               else remove_req k (idgen_next (next_id s)) (pend s).
+Proof.
+  intros fl cfg s e a k co t Ht Hfn Ha.
+  destruct a; simpl in Ha; try discriminate.
+  - inversion Ha; subst. unfold step. simpl is_fail_op. cbv iota. unfold api_step. simpl. rewrite Ht. simpl.
+    unfold send_req, send_exn. simpl. unfold lcore. simpl.
+    repeat split; try reflexivity; try (eexists; reflexivity).
+    exact (remove_put (mkreq KCall (idgen_next (next_id s)) (next_fut s) co t) (pend s)).
+  - destruct (po_wants_ack o) eqn:Ew; [|discriminate]. inversion Ha; subst.
+    unfold step. simpl is_fail_op. cbv iota. unfold api_step. simpl. rewrite Ht, Ew. simpl.
+    unfold send_req, send_exn. simpl. unfold lcore. simpl.
+    repeat split; try reflexivity; try (eexists; reflexivity).
+    exact (remove_put (mkreq KPublish (idgen_next (next_id s)) (next_fut s) None t) (pend s)).
+  - inversion Ha; subst. unfold step. simpl is_fail_op. cbv iota. unfold api_step. simpl. rewrite Ht. simpl.
+    unfold send_req, send_exn. simpl. unfold lcore. simpl. repeat split; try reflexivity; try (eexists; reflexivity).
+  - inversion Ha; subst. unfold step. simpl is_fail_op. cbv iota. unfold api_step. simpl. rewrite Ht. simpl.
+    unfold send_req, send_exn. simpl. unfold lcore. simpl. repeat split; try reflexivity; try (eexists; reflexivity).
+  - destruct (sub_id_of s h) as [i|] eqn:Ei; [|discriminate]. destruct (assoc i (subs s)) as [[|h' [|? ?]]|] eqn:Eas; try discriminate.
+    destruct (h' =? h) eqn:Eh; [|discriminate]. apply N.eqb_eq in Eh. subst h'. inversion Ha; subst.
+    unfold step. simpl is_fail_op. cbv iota. unfold unsub_step.
+    assert (E1 : sub_id_of (set_failnext s (Some e)) h = Some t) by exact Ei. rewrite E1. simpl. rewrite Eas. simpl.
+    rewrite N.eqb_refl. simpl. rewrite Ht. simpl.
+    unfold send_req, send_exn. simpl. unfold lcore. simpl. repeat split; try reflexivity; try (eexists; reflexivity).
+    intro Hx; exfalso; apply Hx; reflexivity.
+  - destruct (reg_id_of s h) as [i|] eqn:Ei; [|discriminate]. destruct (assoc i (regs s)) as [h'|] eqn:Eas; [|discriminate].
+    destruct (h' =? h) eqn:Eh; [|discriminate]. apply N.eqb_eq in Eh. subst h'. inversion Ha; subst.
+    unfold step. simpl is_fail_op. cbv iota. unfold api_step.
+    assert (E1 : reg_id_of (set_failnext s (Some e)) h = Some t) by exact Ei. rewrite E1. simpl. rewrite Eas.
+    rewrite N.eqb_refl. simpl. rewrite Ht. simpl.
+    unfold send_req, send_exn. simpl. unfold lcore. simpl. repeat split; try reflexivity; try (eexists; reflexivity).
+Qed.
+
+(* publish() without acknowledge has no record and no future: the id is consumed, nothing else changes *)
+Theorem failed_send_publish_noack : forall fl cfg s e uri a kw o,
+  transport s = true -> failnext s = None -> po_wants_ack o = false ->
+  let '(s1, o1) := step fl cfg s (AFail e (APublish uri a kw o)) in
+  (exists m, o1 = [SendFailed m; ApiRaised e])
+  /\ next_id s1 = idgen_next (next_id s) /\ pend s1 = pend s /\ done s1 = done s /\ failnext s1 = None /\ lcore s1 = lcore s.
+Proof.
+  intros fl cfg s e uri a kw o Ht Hfn Ew. unfold step. simpl is_fail_op. cbv iota. unfold api_step. simpl. rewrite Ht, Ew. simpl.
+  unfold send_req, send_exn. simpl. unfold lcore. simpl. repeat split; try reflexivity. eexists; reflexivity.
+Qed.
+
+(* call / publish: the failed call left no trace in the tables, so a router message bearing the id it consumed is a
+   protocol violation like any other reply nobody waits for *)
+Theorem failed_send_reply_is_violation : forall fl cfg s e a r v k co t c,
+  transport s = true -> sid s = Some v -> failnext s = None ->
+  api_request s a = Some (k, co, t) -> keeps_record k = false ->
+  reply_spec r = Some (k, idgen_next (next_id s), c) -> find_req k (idgen_next (next_id s)) (pend s) = None ->
+  let '(s1, o1) := step fl cfg s (AFail e a) in
+  (exists m, o1 = [SendFailed m; ApiRaised e]) /\ pend s1 = pend s /\ step fl cfg s1 r = (s1, [Raised XProtocolError]).
+Proof.
+  intros fl cfg s e a r v k co t c Ht Hs Hfn Ha Hk Hr Hf.
+  pose proof (failed_send fl cfg s e a k co t Ht Hfn Ha) as H. destruct (step fl cfg s (AFail e a)) as [s1 o1].
+  destruct H as [Ho [_ [_ [_ [Hc [_ [_ Hp]]]]]]]. rewrite Hk in Hp. rewrite (remove_req_absent _ _ _ Hf) in Hp.
+  split; [exact Ho|]. split; [exact Hp|].
+  unfold lcore in Hc. inversion Hc as [[C1 C2 C3 C4]].
+  apply (reply_unknown fl cfg s1 r v k (idgen_next (next_id s)) c); [congruence | congruence | exact Hr | rewrite Hp; exact Hf].
+Qed.
+
+(* subscribe / register / unsubscribe / unregister: "a later reply with that id is a protocol violation" is FALSE:
+   the record of the call that raised stays, the reply is matched silently and (here) creates a Registration for a
+   register() call whose caller saw an exception *)
+Theorem failed_send_reply_refuted_record_left :
+  exists cfg ops, In (ApiRaised XPayloadExceeded) (trace Tx cfg ops) /\ ~ In (Raised XProtocolError) (trace Tx cfg ops)
+                  /\ regs (final Tx cfg ops) <> [].
+Proof.
+  exists default_cfg, [OOpen; RWelcome 1; AFail XPayloadExceeded (ARegister 1 None); RRegistered 1 58].
+  vm_compute. repeat split; auto 10; try discriminate.
+  intro H; repeat (destruct H as [H|H]; try discriminate H); contradiction.
 Qed.
 
 (* the freshness hypothesis of [reply_during_send] holds in every reachable state *)
@@ -2774,29 +3012,29 @@ Proof.
   - intros x y H. rewrite Hdone. exact H.
   - destruct o; simpl; try lia; unfold api_step.
     + destruct (negb (transport s)); [simpl; lia|]. unfold new_request. cbv zeta beta iota.
-      destruct (send cfg _ _) as [o1 ok]. destruct ok; simpl; lia.
+      destruct (send_req cfg _ _) as [o1 ok]. destruct ok; simpl; lia.
     + destruct (negb (transport s)); [simpl; lia|]. destruct (po_wants_ack o); unfold new_request, new_id_only; cbv zeta beta iota;
-        destruct (send cfg _ _) as [o1 ok]; destruct ok; simpl; lia.
-    + destruct (negb (transport s)); [simpl; lia|]. unfold new_request. cbv zeta beta iota. destruct (send cfg _ _). simpl. lia.
-    + destruct (negb (transport s)); [simpl; lia|]. unfold new_request. cbv zeta beta iota. destruct (send cfg _ _). simpl. lia.
+        destruct (send_req cfg _ _) as [o1 ok]; destruct ok; simpl; lia.
+    + destruct (negb (transport s)); [simpl; lia|]. unfold new_request. cbv zeta beta iota. destruct (send_req cfg _ _). simpl. lia.
+    + destruct (negb (transport s)); [simpl; lia|]. unfold new_request. cbv zeta beta iota. destruct (send_req cfg _ _). simpl. lia.
     + destruct (reg_id_of s h); [|simpl; lia]. destruct (assoc n (regs s)); [|simpl; lia].
       destruct (negb (n0 =? h)); [simpl; lia|]. destruct (negb (transport s)); [simpl; lia|].
-      unfold new_request. cbv zeta beta iota. destruct (send cfg _ _). simpl. lia.
+      unfold new_request. cbv zeta beta iota. destruct (send_req cfg _ _). simpl. lia.
   - assert (Hput : forall k co t r', In r' (put_req (mkreq k (idgen_next (next_id s)) (next_fut s) co t) (pend s)) ->
                    In r' (pend s) \/ next_fut s <= r_fut r').
     { intros k co t r' Hr. destruct (put_req_sub _ _ _ Hr) as [->|Hr']; [right; simpl; lia | now left]. }
     intros r' Hr. destruct o; simpl in Hr; try (now left); unfold api_step in Hr.
     + destruct (negb (transport s)); [now left|]. unfold new_request in Hr. cbv zeta beta iota in Hr.
-      destruct (send cfg _ _) as [o1 ok]. destruct ok; simpl in Hr; [|apply remove_req_in in Hr]; eapply Hput; exact Hr.
+      destruct (send_req cfg _ _) as [o1 ok]. destruct ok; simpl in Hr; [|apply remove_req_in in Hr]; eapply Hput; exact Hr.
     + destruct (negb (transport s)); [now left|]. destruct (po_wants_ack o); unfold new_request, new_id_only in Hr; cbv zeta beta iota in Hr;
-        destruct (send cfg _ _) as [o1 ok]; destruct ok; simpl in Hr; try (now left); [|apply remove_req_in in Hr]; eapply Hput; exact Hr.
+        destruct (send_req cfg _ _) as [o1 ok]; destruct ok; simpl in Hr; try (now left); [|apply remove_req_in in Hr]; eapply Hput; exact Hr.
     + destruct (negb (transport s)); [now left|]. unfold new_request in Hr. cbv zeta beta iota in Hr.
-      destruct (send cfg _ _). simpl in Hr. eapply Hput; exact Hr.
+      destruct (send_req cfg _ _). simpl in Hr. eapply Hput; exact Hr.
     + destruct (negb (transport s)); [now left|]. unfold new_request in Hr. cbv zeta beta iota in Hr.
-      destruct (send cfg _ _). simpl in Hr. eapply Hput; exact Hr.
+      destruct (send_req cfg _ _). simpl in Hr. eapply Hput; exact Hr.
     + destruct (reg_id_of s h); [|now left]. destruct (assoc n (regs s)); [|now left].
       destruct (negb (n0 =? h)); [now left|]. destruct (negb (transport s)); [now left|].
-      unfold new_request in Hr. cbv zeta beta iota in Hr. destruct (send cfg _ _). simpl in Hr. eapply Hput; exact Hr.
+      unfold new_request in Hr. cbv zeta beta iota in Hr. destruct (send_req cfg _ _). simpl in Hr. eapply Hput; exact Hr.
   - intro Ht. destruct o; try reflexivity; unfold api_step; rewrite ?Ht; try reflexivity.
     destruct (reg_id_of s h); [|reflexivity]. destruct (assoc n (regs s)); [|reflexivity].
     destruct (negb (n0 =? h)); reflexivity.
@@ -3003,4 +3241,213 @@ Proof.
     apply is_done_in. apply is_done_in in H. unfold is_done in *. apply in_map_iff in H. destruct H as [[x y] [E Hin]].
     apply in_map_iff. exists (x, y). split; [assumption | now apply Hm4].
   - intros x y Hin. destruct (D4 x y Hin) as [H|H]; [|auto]. destruct (Hd3 x y H); auto.
+Qed.
+
+(* ---------------------------------------------------------------------------------------------------------- *)
+(* the send-failure switch is off in every reachable state: only [AFail] sets it, and it clears it again       *)
+(* ---------------------------------------------------------------------------------------------------------- *)
+Lemma fn_api_step : forall cfg s o, failnext (fst (api_step cfg s o)) = failnext s.
+Proof.
+  intros cfg s o. destruct o; try reflexivity; unfold api_step, new_request, new_id_only; cbv zeta beta iota;
+    repeat match goal with
+           | |- context [send_req cfg ?S ?M] => destruct (send_req cfg S M) as [? ?]
+           | |- context [if ?x then _ else _] => destruct x
+           | |- context [match ?x with Some _ => _ | None => _ end] => destruct x
+           end; reflexivity.
+Qed.
+
+Lemma fn_react : forall cfg s f, failnext (fst (react cfg s f)) = failnext s.
+Proof. intros. unfold react. destruct (assoc f (reacts s)); [apply fn_api_step | reflexivity]. Qed.
+
+Lemma fn_complete : forall fl cfg s f r, failnext (fst (complete fl cfg s f r)) = failnext s.
+Proof.
+  intros. unfold complete. destruct (is_done s f); [reflexivity|]. destruct fl; [|reflexivity].
+  pose proof (fn_react cfg (set_done s (done s ++ [(f, r)])) f) as H. destruct (react cfg _ f). exact H.
+Qed.
+
+Lemma fn_errback_list : forall fl cfg e l s, failnext (fst (errback_list fl cfg s e l)) = failnext s.
+Proof.
+  induction l as [|r t IH]; intro s; simpl; [reflexivity|].
+  pose proof (fn_complete fl cfg s (r_fut r) (RErr e)) as H. destruct (complete fl cfg s (r_fut r) (RErr e)) as [s1 o1].
+  specialize (IH s1). destruct (errback_list fl cfg s1 e t) as [s2 o2]. simpl in *. congruence.
+Qed.
+
+Lemma fn_errback_all : forall fl cfg s e, failnext (fst (errback_all fl cfg s e)) = failnext s.
+Proof. intros. unfold errback_all. rewrite fn_errback_list. reflexivity. Qed.
+
+Lemma fn_run_leaf : forall fl cfg s l, failnext (fst (run_leaf fl cfg s l)) = failnext s.
+Proof.
+  intros fl cfg s l. destruct l; simpl.
+  - pose proof (fn_react cfg s f) as H. destruct (react cfg s f). exact H.
+  - destruct (sdetails s); reflexivity.
+  - reflexivity.
+  - destruct (transport s); reflexivity.
+  - reflexivity.
+  - destruct (transport s); [destruct (send cfg s (MCancel id))|]; reflexivity.
+  - destruct (transport s); [destruct (send cfg _ (MYield rq))|]; reflexivity.
+Qed.
+
+Lemma fn_defer_leaf : forall fl cfg s l, failnext (fst (defer_leaf fl cfg s l)) = failnext s.
+Proof. intros. unfold defer_leaf. destruct fl; [apply fn_run_leaf | reflexivity]. Qed.
+
+Lemma fn_do_onLeave : forall fl cfg s rs, failnext (fst (fst (do_onLeave fl cfg s rs))) = failnext s.
+Proof.
+  intros. unfold do_onLeave. destruct (u_leave_super cfg); [|reflexivity].
+  pose proof (fn_errback_all fl cfg s (ELeave rs)) as H1. destruct (errback_all fl cfg s (ELeave rs)) as [s1 o1].
+  pose proof (fn_defer_leaf fl cfg s1 LLeaveDisconnect) as H2. destruct (defer_leaf fl cfg s1 LLeaveDisconnect) as [s2 o2].
+  simpl in *. congruence.
+Qed.
+
+Lemma fn_do_onDisconnect : forall fl cfg s, failnext (fst (fst (do_onDisconnect fl cfg s))) = failnext s.
+Proof.
+  intros. unfold do_onDisconnect. destruct (u_disc_super cfg); [|reflexivity].
+  pose proof (fn_errback_all fl cfg s ETransportLost) as H1. destruct (errback_all fl cfg s ETransportLost) as [s1 o1]. exact H1.
+Qed.
+
+Lemma fn_leave_then : forall fl cfg s rs,
+  failnext (fst (let '(s2, o2, raised) := do_onLeave fl cfg s rs in
+                 let '(s3, o3) := defer_leaf fl cfg s2 (LLeaveK raised) in (s3, o2 ++ o3))) = failnext s.
+Proof.
+  intros. pose proof (fn_do_onLeave fl cfg s rs) as H1. destruct (do_onLeave fl cfg s rs) as [[s2 o2] raised].
+  pose proof (fn_defer_leaf fl cfg s2 (LLeaveK raised)) as H2. destruct (defer_leaf fl cfg s2 (LLeaveK raised)) as [s3 o3].
+  simpl in *. congruence.
+Qed.
+
+Lemma fn_challenge_failed : forall fl cfg s, failnext (fst (challenge_failed fl cfg s)) = failnext s.
+Proof.
+  intros. unfold challenge_failed. destruct (transport s); [|reflexivity].
+  destruct (send cfg s (MAbort RsCannotAuth)) as [o1 ok]. destruct ok; [|reflexivity].
+  pose proof (fn_do_onLeave fl cfg s RsCannotAuth) as H1. destruct (do_onLeave fl cfg s RsCannotAuth) as [[s2 o2] raised].
+  pose proof (fn_defer_leaf fl cfg s2 (LLeaveK raised)) as H2. destruct (defer_leaf fl cfg s2 (LLeaveK raised)) as [s3 o3].
+  simpl in *. congruence.
+Qed.
+
+Lemma fn_run_thunk : forall fl cfg s t, failnext (fst (run_thunk fl cfg s t)) = failnext s.
+Proof.
+  intros fl cfg s t. destruct t; simpl.
+  - apply fn_run_leaf.
+  - destruct (u_connect cfg); [|reflexivity]. destruct (sid_truthy s); [reflexivity|]. destruct (negb (transport s)); [reflexivity|].
+    destruct (send cfg _ MHello); reflexivity.
+  - destruct o.
+    + destruct (transport s); [|reflexivity]. rewrite fn_defer_leaf. reflexivity.
+    + destruct (transport s); [destruct (send cfg s (MAbort RsCannotAuth))|]; reflexivity.
+    + destruct (transport s); [destruct (send cfg s (MAbort RsCannotAuth))|]; reflexivity.
+  - pose proof (fn_challenge_failed fl cfg s) as Hc.
+    destruct o.
+    + destruct (transport s).
+      * destruct (send cfg s MAuthenticate) as [o1 ok]. destruct ok; [reflexivity|]. destruct fl; [reflexivity|].
+        destruct (challenge_failed Aio cfg s). exact Hc.
+      * destruct fl; [reflexivity | exact Hc].
+    + destruct fl; [reflexivity | exact Hc].
+    + exact Hc.
+Qed.
+
+Lemma fn_defer : forall fl cfg s t, failnext (fst (defer fl cfg s t)) = failnext s.
+Proof. intros. unfold defer. destruct fl; [apply fn_run_thunk | reflexivity]. Qed.
+
+Lemma fn_run_queue : forall fl cfg q s, failnext (fst (run_queue fl cfg s q)) = failnext s.
+Proof.
+  induction q as [|t r IH]; intro s; simpl; [reflexivity|].
+  pose proof (fn_run_thunk fl cfg s t) as H. destruct (run_thunk fl cfg s t) as [s1 o1].
+  specialize (IH s1). destruct (run_queue fl cfg s1 r) as [s2 o2]. simpl in *. congruence.
+Qed.
+
+Lemma fn_pop_reply : forall s k rq found,
+  (forall r s1, failnext (fst (found r s1)) = failnext s1) -> failnext (fst (pop_reply s k rq found)) = failnext s.
+Proof.
+  intros s k rq found H. unfold pop_reply. destruct (find_req k rq (pend s)); [|reflexivity].
+  destruct (is_done _ _); [reflexivity|]. rewrite H. reflexivity.
+Qed.
+
+Lemma fn_established : forall fl cfg s o, failnext (fst (on_message_established fl cfg s o)) = failnext s.
+Proof.
+  intros fl cfg s o. destruct o; simpl; try reflexivity.
+  - destruct (if goodbye_sent s then ([], true) else send cfg s (MGoodbye RsNormal)) as [o1 ok]. destruct ok; [|reflexivity].
+    pose proof (fn_leave_then fl cfg (set_sid s None) r) as H.
+    destruct (do_onLeave fl cfg (set_sid s None) r) as [[s2 o2] raised].
+    destruct (defer_leaf fl cfg s2 (LLeaveK raised)) as [s3 o3]. exact H.
+  - apply fn_pop_reply. intros. apply fn_complete.
+  - apply fn_pop_reply. intros. rewrite fn_complete. reflexivity.
+  - apply fn_pop_reply. intros. rewrite fn_complete. reflexivity.
+  - destruct (find_req KCall rq (pend s)) as [r|]; [|reflexivity]. destruct progress.
+    + destruct (r_opts r) as [c|]; [|reflexivity]. destruct (co_progress c); reflexivity.
+    + destruct (is_done _ _); [reflexivity|]. rewrite fn_complete. reflexivity.
+  - apply fn_pop_reply. intros r s1. destruct (assoc regid (regs s1)); [reflexivity|]. rewrite fn_complete. reflexivity.
+  - destruct (rq =? 0).
+    + destruct regid as [g|]; [destruct (assoc g (regs s))|]; reflexivity.
+    + apply fn_pop_reply. intros. rewrite fn_complete. reflexivity.
+  - destruct (kind_of_code rtype) as [k|]; [|reflexivity].
+    destruct (find_req k rq (pend s)); [|reflexivity]. rewrite fn_complete. reflexivity.
+  - destruct (assoc subid (subs s)); reflexivity.
+  - destruct (memN rq (invs s)); [reflexivity|]. destruct (assoc regid (regs s)); [|reflexivity]. rewrite fn_defer_leaf. reflexivity.
+Qed.
+
+Lemma fn_unjoined : forall fl cfg s o, failnext (fst (on_message_unjoined fl cfg s o)) = failnext s.
+Proof.
+  intros fl cfg s o. destruct o; simpl; try reflexivity.
+  - pose proof (fn_defer fl cfg s (TWelcomeK (u_welcome cfg) sidv)) as H. destruct (defer fl cfg s (TWelcomeK (u_welcome cfg) sidv)). exact H.
+  - pose proof (fn_leave_then fl cfg s r) as H. destruct (do_onLeave fl cfg s r) as [[s2 o2] raised].
+    destruct (defer_leaf fl cfg s2 (LLeaveK raised)) as [s3 o3]. exact H.
+  - pose proof (fn_defer fl cfg s (TChallengeK (u_challenge cfg))) as H. destruct (defer fl cfg s (TChallengeK (u_challenge cfg))). exact H.
+Qed.
+
+Lemma fn_unsub_step : forall fl cfg s h, failnext (fst (unsub_step fl cfg s h)) = failnext s.
+Proof.
+  intros. unfold unsub_step. destruct (sub_id_of s h) as [subid|]; [|reflexivity]. destruct (negb (memN h _)); [reflexivity|].
+  destruct (negb (transport s)); [reflexivity|].
+  destruct (remove1 h match assoc subid (subs s) with Some l => l | None => [] end) as [|x rest'].
+  - unfold new_request. cbv zeta beta iota. destruct (send_req cfg _ _) as [o1 ok]. reflexivity.
+  - match goal with |- context [complete fl cfg ?S ?F ?R] =>
+      pose proof (fn_complete fl cfg S F R) as Hc; destruct (complete fl cfg S F R) as [s2 o2] end. exact Hc.
+Qed.
+
+Theorem step_failnext : forall fl cfg s o, failnext s = None -> failnext (fst (step fl cfg s o)) = None.
+Proof.
+  intros fl cfg s o H0.
+  assert (Hrouter : forall o', failnext (fst (if negb (transport s) then (s, [])
+                       else match sid s with None => on_message_unjoined fl cfg s o' | Some _ => on_message_established fl cfg s o' end)) = None).
+  { intros o'. destruct (negb (transport s)); [exact H0|]. destruct (sid s); [rewrite fn_established | rewrite fn_unjoined]; exact H0. }
+  destruct o; try apply Hrouter; try (rewrite <- H0; apply fn_api_step); unfold step; cbv beta iota.
+  - destruct (transport s); [exact H0|]. rewrite fn_defer. exact H0.
+  - destruct (negb (transport s)); [exact H0|].
+    set (s0 := set_conn s (opened s) false false).
+    assert (H3 : failnext (fst (if sid_truthy s0
+                           then let '(s1, o1, raised) := do_onLeave fl cfg s0 RsTransportLost in
+                                let '(s2, o2) := defer_leaf fl cfg s1 (LLeaveK raised) in (set_sid s2 None, o1 ++ o2)
+                           else (s0, []))) = None).
+    { destruct (sid_truthy s0); [|exact H0]. pose proof (fn_leave_then fl cfg s0 RsTransportLost) as H1.
+      destruct (do_onLeave fl cfg s0 RsTransportLost) as [[s1 o1] raised].
+      destruct (defer_leaf fl cfg s1 (LLeaveK raised)) as [s2 o2]. simpl in *. rewrite H1. exact H0. }
+    destruct (if sid_truthy s0
+              then let '(s1, o1, raised) := do_onLeave fl cfg s0 RsTransportLost in
+                   let '(s2, o2) := defer_leaf fl cfg s1 (LLeaveK raised) in (set_sid s2 None, o1 ++ o2)
+              else (s0, [])) as [s3 o3]. simpl in H3.
+    pose proof (fn_do_onDisconnect fl cfg s3) as H4. destruct (do_onDisconnect fl cfg s3) as [[s4 o4] raised]. simpl in H4.
+    pose proof (fn_defer_leaf fl cfg s4 (LDiscK raised)) as H5. destruct (defer_leaf fl cfg s4 (LDiscK raised)) as [s5 o5].
+    simpl in *. congruence.
+  - destruct fl; [exact H0|]. rewrite fn_run_queue. exact H0.
+  - rewrite fn_unsub_step. exact H0.
+  - destruct (is_done s f); [exact H0|]. destruct (assoc f (issued s)) as [[k id]|]; [|exact H0].
+    destruct fl; [|destruct k; exact H0].
+    assert (Hc : failnext (fst (let '(s1, o2) := complete Tx cfg s f (RErr ECancelled) in (s1, o2 ++ [ApiReturned None]))) = None).
+    { pose proof (fn_complete Tx cfg s f (RErr ECancelled)) as Hc. destruct (complete Tx cfg s f (RErr ECancelled)). simpl in *. congruence. }
+    destruct k; try exact Hc. destruct (transport s); [|exact H0].
+    destruct (send cfg s (MCancel id)) as [o1 ok]. destruct ok; [|exact H0].
+    pose proof (fn_complete Tx cfg s f (RErr ECancelled)) as Hc2. destruct (complete Tx cfg s f (RErr ECancelled)). simpl in *. congruence.
+  - destruct (negb (sid_truthy s)); [exact H0|]. destruct (goodbye_sent s); [exact H0|].
+    destruct (negb (transport s)); [exact H0|].
+    match goal with |- context [send cfg s ?M] => destruct (send cfg s M) as [o1 ok] end. destruct ok; exact H0.
+  - destruct (transport s); exact H0.
+  - destruct (is_fail_op o); [|exact H0].
+    destruct (match o with AUnsubscribe h => unsub_step fl cfg (set_failnext s (Some e)) h
+              | _ => api_step cfg (set_failnext s (Some e)) o end) as [s1 o1]. reflexivity.
+  - destruct (is_react_op o && negb (is_done s f) && isNoneB (assoc f (reacts s))); exact H0.
+Qed.
+
+Theorem failnext_reachable : forall fl cfg ops, failnext (final fl cfg ops) = None.
+Proof.
+  intros fl cfg ops. unfold final. assert (H : failnext init = None) by reflexivity. revert H. generalize init.
+  induction ops as [|o t IH]; simpl; intros s H; [exact H|].
+  pose proof (step_failnext fl cfg s o H) as H1. destruct (step fl cfg s o) as [s1 o1]. simpl in H1.
+  specialize (IH s1 H1). destruct (run fl cfg s1 t) as [s2 tr]. exact IH.
 Qed.
